@@ -33,10 +33,10 @@ Lemma sout_print env e ds : sout' env (SPrint e ds)
     end.
 Proof. reflexivity. Qed.
 Lemma sout_let env name e : sout' env (SLet name e)
-  = if bstr_eqb name n_ij then None else match ceval ij env e with Some v => Some ([], env_set env name v) | None => None end.
+  = if bstr_eqb name n_ij then None else if is_ident name then match ceval ij env e with Some v => Some ([], env_set env name v) | None => None end else None.
 Proof. reflexivity. Qed.
 Lemma sout_letc env name body : sout' env (SLetC name body)
-  = if bstr_eqb name n_ij then None else match bout' env body with Some t => Some ([], env_set env name (VStr t)) | None => None end.
+  = if bstr_eqb name n_ij then None else if is_ident name then match bout' env body with Some t => Some ([], env_set env name (VStr t)) | None => None end else None.
 Proof. reflexivity. Qed.
 Lemma sout_if env c th rest : sout' env (SIf c th rest)
   = match ceval ij env c with
@@ -48,6 +48,56 @@ Lemma sout_switch env v cs : sout' env (SSwitch v cs)
   = match ceval ij env v with
     | Some sv => if prim_value sv then match kout' env sv cs with Some t => Some (t, env) | None => None end else None
     | None => None
+    end.
+Proof. reflexivity. Qed.
+Lemma sout_for env x e body hasie ie : sout' env (SFor x e body hasie ie)
+  = if is_ident x && negb (bstr_eqb x n_ij) then
+      match ceval ij env e with
+      | Some (VList _ l) =>
+          if small (Z.of_nat (length l)) then
+            match l with
+            | [] => if hasie then match bout' env ie with Some t => Some (t, env) | None => None end else Some ([], env)
+            | _ :: _ =>
+                match for_out (fun en => bout' en body) x (env_set env (x ++ c_lastindex) (VInt (Z.of_nat (length l) - 1))) 0%Z l with
+                | Some t => Some (t, env)
+                | None => None
+                end
+            end
+          else None
+      | _ => None
+      end
+    else None.
+Proof. reflexivity. Qed.
+Lemma sout_forrange env x a1 rest body hasie ie : sout' env (SForRange x a1 rest body hasie ie)
+  = if is_ident x && negb (bstr_eqb x n_ij) then
+      match cints ij env (a1 :: rest) with
+      | Some zs =>
+          match range_args 0%Z 1%Z zs with
+          | Some (a, l, st) =>
+              if (0 <? st)%Z && small (l - a) then
+                let items := range_items (Z.to_nat (Z.max 0 (l - a))) a l st in
+                match items with
+                | [] => if hasie then match bout' env ie with Some t => Some (t, env) | None => None end else Some ([], env)
+                | _ :: _ =>
+                    match for_out (fun en => bout' en body) x (env_set env (x ++ c_lastindex) (VInt (Z.of_nat (length items) - 1))) 0%Z items with
+                    | Some t => Some (t, env)
+                    | None => None
+                    end
+                end
+              else None
+          | None => None
+          end
+      | None => None
+      end
+    else None.
+Proof. reflexivity. Qed.
+Lemma sout_css env e sfx : sout' env (SCss e sfx)
+  = match e with
+    | None => Some (sfx, env)
+    | Some x => match ceval ij env x with
+                | Some v => match scalar_string v with Some str => Some ((str ++ [45]) ++ sfx, env) | None => None end
+                | None => None
+                end
     end.
 Proof. reflexivity. Qed.
 Lemma bout_nil env : bout' env BNil = Some []. Proof. reflexivity. Qed.
@@ -83,6 +133,24 @@ Lemma sgen_if sc n c th rest : sgen' sc n (SIf c th rest)
 Proof. reflexivity. Qed.
 Lemma sgen_switch sc n v cs : sgen' sc n (SSwitch v cs) = let '(jc, n1) := kgen' sc n cs in (JSSwitch (cgen sc v) jc, (sc, n1)).
 Proof. reflexivity. Qed.
+Lemma sgen_for sc n x e body hasie ie : sgen' sc n (SFor x e body hasie ie)
+  = let '(jb, n1) := bgen' ([] :: loop_frame x (n + 1) :: sc) (n + 1) body in
+    let '(ji, n2) := if hasie then bgen' ([] :: sc) n1 ie else (JBNil, n1) in
+    (JSForeach (jsc_name x (n + 1)) (jsc_name (x ++ t_list) (n + 1)) (jsc_name (x ++ t_limit) (n + 1)) (jsc_name (x ++ t_index) (n + 1))
+               (cgen sc e) jb hasie ji, (sc, n2)).
+Proof. reflexivity. Qed.
+Lemma sgen_forrange sc n x a1 rest body hasie ie : sgen' sc n (SForRange x a1 rest body hasie ie)
+  = let '(jb, n1) := bgen' ([] :: loop_frame x (n + 1) :: sc) (n + 1) body in
+    let '(ji, n2) := if hasie then bgen' ([] :: sc) n1 ie else (JBNil, n1) in
+    let '(ei, el, es) := match range_args (JENum 0) (JENum 1) (map (cgen sc) (a1 :: rest)) with
+                         | Some t => t
+                         | None => (JENull, JENull, JENull)
+                         end in
+    (JSForRange (jsc_name x (n + 1)) (jsc_name (x ++ t_init) (n + 1)) (jsc_name (x ++ t_step) (n + 1)) (jsc_name (x ++ t_limit) (n + 1))
+                (jsc_name (x ++ t_index) (n + 1)) ei es el jb hasie ji, (sc, n2)).
+Proof. reflexivity. Qed.
+Lemma sgen_css sc n e sfx : sgen' sc n (SCss e sfx) = (JSCss buf (match e with Some x => Some (cgen sc x) | None => None end) sfx, (sc, n)).
+Proof. reflexivity. Qed.
 Lemma bgen_nil sc n : bgen' sc n BNil = (JBNil, n). Proof. reflexivity. Qed.
 Lemma bgen_cons sc n s r : bgen' sc n (BCons s r)
   = let '(j, (sc1, n1)) := sgen' sc n s in let '(jr, n2) := bgen' sc1 n1 r in (JBCons j jr, n2).
@@ -107,6 +175,44 @@ Lemma js_exec_if env c th rest : js_exec env (JSIf c th rest) = (v <- js_eval en
 Proof. reflexivity. Qed.
 Lemma js_exec_switch env v cs : js_exec env (JSSwitch v cs) = (sv <- js_eval env v ;; jk_exec env sv cs).
 Proof. reflexivity. Qed.
+Lemma js_exec_foreach env vd vlist vlen vidx e body hasie ie : js_exec env (JSForeach vd vlist vlen vidx e body hasie ie)
+  = (v <- js_eval env e ;;
+     match v with
+     | JArr l =>
+         let c := Z.of_nat (length l) in
+         let env2 := jvset (jvset env vlist v) vlen (JNum c) in
+         if hasie && (c <=? 0)%Z then jb_exec env2 ie
+         else js_for (fun en => jb_exec en body) (js_item_elem vlist) vd vlen vidx (length l) (jvset env2 vidx (JNum 0))
+     | JUndef | JNull => Err je_type
+     | _ => OutOfModel
+     end).
+Proof. reflexivity. Qed.
+Lemma js_exec_forrange env vd vinit vstep vlen vidx ei es el body hasie ie : js_exec env (JSForRange vd vinit vstep vlen vidx ei es el body hasie ie)
+  = (vi <- js_eval env ei ;;
+     let env1 := jvset env vinit vi in
+     vs <- js_eval env1 es ;;
+     let env2 := jvset env1 vstep vs in
+     vl <- js_eval env2 el ;;
+     match vl, jvget env2 vinit, jvget env2 vstep with
+     | JNum l, Some (JNum a), Some (JNum s) =>
+         cv <- js_range_count l a s ;;
+         match cv with
+         | JNum c =>
+             let env3 := jvset env2 vlen cv in
+             if hasie && (c <=? 0)%Z then jb_exec env3 ie
+             else js_for (fun en => jb_exec en body) (js_item_lin vinit vstep) vd vlen vidx (Z.to_nat c) (jvset env3 vidx (JNum 0))
+         | _ => OutOfModel
+         end
+     | _, _, _ => OutOfModel
+     end).
+Proof. reflexivity. Qed.
+Lemma js_exec_css env buf e sfx : js_exec env (JSCss buf e sfx)
+  = (env1 <- match e with
+             | Some x => v <- js_eval env x ;; match js_tostring v with Some s => js_append_text env buf (s ++ [45]) | None => OutOfModel end
+             | None => Ok env
+             end ;;
+     js_append_text env1 buf sfx).
+Proof. reflexivity. Qed.
 Lemma jb_exec_cons env s r : jb_exec env (JBCons s r) = (env' <- js_exec env s ;; jb_exec env' r). Proof. reflexivity. Qed.
 Lemma jl_exec_elif env c th rest : jl_exec env (JLElif c th rest) = (v <- js_eval env c ;; if js_truthy v then jb_exec env th else jl_exec env rest).
 Proof. reflexivity. Qed.
@@ -116,12 +222,13 @@ Proof. reflexivity. Qed.
 (* ---- small facts ---- *)
 Lemma ceval_ext ij env1 env2 : (forall k, env1 k = env2 k) -> forall e, ceval ij env1 e = ceval ij env2 e.
 Proof.
-  intros H. induction e as [| x | z | s | key accs | a IHa | a IHa | op a IHa c IHc | c IHc a IHa d IHd]; cbn [ceval]; try reflexivity.
+  intros H. induction e as [| x | z | s | key accs | a IHa | a IHa | op a IHa c IHc | c IHc a IHa d IHd | k x]; cbn [ceval]; try reflexivity.
   - rewrite H. reflexivity.
   - rewrite IHa. reflexivity.
   - rewrite IHa. reflexivity.
   - rewrite IHa, IHc. reflexivity.
   - rewrite IHc, IHa, IHd. reflexivity.
+  - rewrite !H. reflexivity.
 Qed.
 
 Lemma scalar_string_ok v s : scalar_string v = Some s -> printable_scalar v = true /\ value_string v = Ok s /\ js_tostring (to_js v) = Some s.
@@ -178,21 +285,113 @@ Proof.
   - apply dec_no_us.
 Qed.
 
+(* ---- identifiers, the renderer's hidden loop variables, the generator's loop frames ---- *)
+Lemma is_ident_app a c : is_ident (a ++ c) = is_ident a && is_ident c.
+Proof. unfold is_ident. rewrite existsb_app, negb_orb. reflexivity. Qed.
+Lemma ident_neq_dotted name y sfx : is_ident name = true -> is_ident sfx = false -> bstr_eqb name (y ++ sfx) = false.
+Proof.
+  intros Hn Hs. apply bstr_eqb_false_ne. intro E. rewrite E, is_ident_app, Hs, andb_false_r in Hn. discriminate.
+Qed.
+Lemma ident_neq_index name y : is_ident name = true -> bstr_eqb name (y ++ jk_index) = false.
+Proof. intro H. apply ident_neq_dotted; [exact H|reflexivity]. Qed.
+Lemma ident_neq_lastindex name y : is_ident name = true -> bstr_eqb name (y ++ c_lastindex) = false.
+Proof. intro H. apply ident_neq_dotted; [exact H|reflexivity]. Qed.
+Lemma ident_neq_jk name k : is_ident name = true -> is_ident k = false -> bstr_eqb name k = false.
+Proof. intros Hn Hk. apply (ident_neq_dotted name [] k Hn Hk). Qed.
+Lemma index_neq_lastindex y x : bstr_eqb (y ++ jk_index) (x ++ c_lastindex) = false.
+Proof.
+  apply bstr_eqb_false_ne. intro H. apply (f_equal (@rev N)) in H. rewrite !rev_app_distr in H.
+  cbn [rev jk_index c_lastindex app] in H. inversion H.
+Qed.
+Lemma app_same_tail_eqb y x sfx : bstr_eqb (y ++ sfx) (x ++ sfx) = bstr_eqb y x.
+Proof.
+  destruct (bstr_eqb y x) eqn:E.
+  - apply bstr_eqb_true in E. subst. apply bstr_eqb_refl'.
+  - apply bstr_eqb_false_ne. intro H. apply app_inv_tail in H. subst. rewrite bstr_eqb_refl' in E. discriminate.
+Qed.
+
+Lemma jsc_name_neq a c n : a <> c -> bstr_eqb (jsc_name a n) (jsc_name c n) = false.
+Proof. intro H. apply bstr_eqb_false_ne. intro E. rewrite !jsc_name_sfx in E. apply sfx_name_inj in E. destruct E; contradiction. Qed.
+Lemma app_neq_self (x sfx : bstr) : sfx <> [] -> x <> x ++ sfx.
+Proof. intros Hs E. rewrite <- (app_nil_r x) in E at 1. apply app_inv_head in E. congruence. Qed.
+Lemma app_neq_tails (x a c : bstr) : a <> c -> x ++ a <> x ++ c.
+Proof. intros H E. apply app_inv_head in E. contradiction. Qed.
+
+(* the names of one loop are distinct *)
+Lemma loop_names_distinct x n :
+  let vd := jsc_name x n in let vlist := jsc_name (x ++ t_list) n in let vlen := jsc_name (x ++ t_limit) n in let vidx := jsc_name (x ++ t_index) n in
+  bstr_eqb vd vlist = false /\ bstr_eqb vd vlen = false /\ bstr_eqb vd vidx = false
+  /\ bstr_eqb vlist vlen = false /\ bstr_eqb vlist vidx = false /\ bstr_eqb vlen vidx = false.
+Proof.
+  cbn zeta. repeat split; apply jsc_name_neq;
+    first [apply app_neq_self; discriminate | apply app_neq_tails; discriminate].
+Qed.
+
+Lemma loop_frame_eq x n : is_ident x = true ->
+  loop_frame x n = [(x, jsc_name x n); (jk_var, x); (jk_limit, jsc_name (x ++ t_limit) n); (jk_index, jsc_name (x ++ t_index) n)].
+Proof.
+  intro Hx. unfold loop_frame. cbn [aset].
+  rewrite (bstr_eqb_sym jk_var x), (ident_neq_jk x jk_var Hx eq_refl). cbn [aset].
+  rewrite (bstr_eqb_sym jk_limit x), (ident_neq_jk x jk_limit Hx eq_refl).
+  replace (bstr_eqb jk_limit jk_var) with false by reflexivity. cbn [aset].
+  rewrite (bstr_eqb_sym jk_index x), (ident_neq_jk x jk_index Hx eq_refl).
+  replace (bstr_eqb jk_index jk_var) with false by reflexivity. replace (bstr_eqb jk_index jk_limit) with false by reflexivity. reflexivity.
+Qed.
+
+Lemma jsc_loop_push sc x : jsc_loop ([] :: sc) x = jsc_loop sc x.
+Proof. cbn [jsc_loop]. unfold assoc_s. cbn. rewrite andb_false_r. reflexivity. Qed.
+Lemma jsc_loop_bind sc name g x : is_ident name = true -> jsc_loop (jsc_bind_pure sc name g) x = jsc_loop sc x.
+Proof.
+  intro Hn. destruct sc as [|f r]; [reflexivity|]. cbn [jsc_bind_pure jsc_loop].
+  rewrite !assoc_s_aset_other by (rewrite bstr_eqb_sym; apply ident_neq_jk; [exact Hn|reflexivity]). reflexivity.
+Qed.
+Lemma jsc_loop_frame sc x n y : is_ident x = true ->
+  jsc_loop (loop_frame x n :: sc) y = if bstr_eqb x y then (jsc_name (x ++ t_index) n, jsc_name (x ++ t_limit) n) else jsc_loop sc y.
+Proof.
+  intro Hx. rewrite loop_frame_eq by exact Hx. cbn [jsc_loop]. unfold assoc_s.
+  rewrite (bstr_eqb_sym jk_var x), (ident_neq_jk x jk_var Hx eq_refl).
+  rewrite (bstr_eqb_sym jk_index x), (ident_neq_jk x jk_index Hx eq_refl).
+  rewrite (bstr_eqb_sym jk_limit x), (ident_neq_jk x jk_limit Hx eq_refl).
+  replace (bstr_eqb jk_var jk_var) with true by reflexivity.
+  replace (bstr_eqb jk_index jk_var) with false by reflexivity. replace (bstr_eqb jk_index jk_limit) with false by reflexivity.
+  replace (bstr_eqb jk_index jk_index) with true by reflexivity.
+  replace (bstr_eqb jk_limit jk_var) with false by reflexivity. replace (bstr_eqb jk_limit jk_limit) with true by reflexivity.
+  destruct (jsc_name_cons (x ++ t_index) n) as (c0 & r0 & Hc). rewrite Hc. cbn [negb]. rewrite andb_true_r. reflexivity.
+Qed.
+Lemma jsc_lookup_frame sc x n key : is_ident x = true ->
+  jsc_lookup (loop_frame x n :: sc) key
+  = if bstr_eqb key x then jsc_name x n else if bstr_eqb key jk_var then x
+    else if bstr_eqb key jk_limit then jsc_name (x ++ t_limit) n else if bstr_eqb key jk_index then jsc_name (x ++ t_index) n
+    else jsc_lookup sc key.
+Proof.
+  intro Hx. rewrite loop_frame_eq by exact Hx. cbn [jsc_lookup]. unfold assoc_s.
+  destruct (bstr_eqb key x); [reflexivity|]. destruct (bstr_eqb key jk_var); [reflexivity|].
+  destruct (bstr_eqb key jk_limit); [reflexivity|]. destruct (bstr_eqb key jk_index); reflexivity.
+Qed.
+
 (* ================================================================== *)
 (* the JavaScript side *)
 
 (* what the generator's scope, counter and buffer variable satisfy *)
+(* (the entry .var of a loop frame holds a Soy name, not a generated one: it is exempt) *)
 Record ginv (sc : list (list (bstr * bstr))) (n : N) (buf : bstr) : Prop := {
   gi_nonempty : sc <> [];
-  gi_scope : forall key, bounded n (jsc_lookup sc key);
+  gi_scope : forall key, bstr_eqb key jk_var = false -> bounded n (jsc_lookup sc key);
   gi_buf : bounded n buf;
-  gi_buf_fresh : forall key, bstr_eqb (jsc_lookup sc key) buf = false;
+  gi_buf_fresh : forall key, bstr_eqb key jk_var = false -> bstr_eqb (jsc_lookup sc key) buf = false;
   gi_buf_ij : bstr_eqb t_opt_ij buf = false;
+  gi_loop : forall x, bounded n (fst (jsc_loop sc x)) /\ bounded n (snd (jsc_loop sc x))
+                      /\ bstr_eqb (fst (jsc_loop sc x)) buf = false /\ bstr_eqb (snd (jsc_loop sc x)) buf = false;
 }.
 Lemma ginv_mono sc n n' buf : n <= n' -> ginv sc n buf -> ginv sc n' buf.
-Proof. intros Hn [H0 H1 H2 H3 H4]. constructor; auto. intro k. eapply bounded_mono; eauto. eapply bounded_mono; eauto. Qed.
+Proof.
+  intros Hn [H0 H1 H2 H3 H4 H5]. constructor; auto.
+  - intros k Hk. eapply bounded_mono; eauto.
+  - eapply bounded_mono; eauto.
+  - intro x. destruct (H5 x) as (A & B & C & D). repeat split; auto; eapply bounded_mono; eauto.
+Qed.
 Lemma ginv_push sc n buf : ginv sc n buf -> ginv ([] :: sc) n buf.
-Proof. intros [H0 H1 H2 H3 H4]. constructor; auto. discriminate. Qed.
+Proof. intros [H0 H1 H2 H3 H4 H5]. constructor; auto. discriminate. intro x. rewrite jsc_loop_push. apply H5. Qed.
 
 Lemma jsc_lookup_bind_same sc name g : sc <> [] -> jsc_lookup (jsc_bind_pure sc name g) name = g.
 Proof.
@@ -203,9 +402,9 @@ Proof.
   destruct sc as [|f r]; [reflexivity|]. intro H. cbn [jsc_bind_pure jsc_lookup]. rewrite assoc_s_aset_other by exact H. reflexivity.
 Qed.
 
-Lemma ginv_bind sc n buf name : ginv sc n buf -> ginv (jsc_bind_pure sc name (jsc_name name (n + 1))) (n + 1) buf.
+Lemma ginv_bind sc n buf name : is_ident name = true -> ginv sc n buf -> ginv (jsc_bind_pure sc name (jsc_name name (n + 1))) (n + 1) buf.
 Proof.
-  intros [H0 H1 H2 H3 H4].
+  intros Hid [H0 H1 H2 H3 H4 H5].
   assert (Hl : forall key, jsc_lookup (jsc_bind_pure sc name (jsc_name name (n + 1))) key
                            = if bstr_eqb key name then jsc_name name (n + 1) else jsc_lookup sc key).
   { intro key. destruct (bstr_eqb key name) eqn:E.
@@ -213,11 +412,32 @@ Proof.
     - apply jsc_lookup_bind_other. exact E. }
   constructor.
   - destruct sc; [congruence|discriminate].
-  - intro key. rewrite Hl. destruct (bstr_eqb key name); [apply bounded_new|]. eapply bounded_mono; [|apply H1]. lia.
+  - intros key Hk. rewrite Hl. destruct (bstr_eqb key name); [apply bounded_new|]. eapply bounded_mono; [|apply H1; exact Hk]. lia.
   - eapply bounded_mono; [|exact H2]. lia.
-  - intro key. rewrite Hl. destruct (bstr_eqb key name); [|apply H3]. rewrite bstr_eqb_sym. apply bounded_fresh. exact H2.
+  - intros key Hk. rewrite Hl. destruct (bstr_eqb key name); [|apply H3; exact Hk]. rewrite bstr_eqb_sym. apply bounded_fresh. exact H2.
   - exact H4.
+  - intro x. rewrite jsc_loop_bind by exact Hid. destruct (H5 x) as (A & B & C & D). repeat split; auto; eapply bounded_mono; eauto; lia.
 Qed.
+
+(* the scope inside a loop over $x: its frame holds names with the next counter *)
+Lemma ginv_loop sc n buf x : is_ident x = true -> ginv sc n buf -> ginv (loop_frame x (n + 1) :: sc) (n + 1) buf.
+Proof.
+  intros Hx [H0 H1 H2 H3 H4 H5]. constructor.
+  - discriminate.
+  - intros key Hk. rewrite jsc_lookup_frame by exact Hx. rewrite Hk.
+    destruct (bstr_eqb key x); [apply bounded_new|]. destruct (bstr_eqb key jk_limit); [apply bounded_new|].
+    destruct (bstr_eqb key jk_index); [apply bounded_new|]. eapply bounded_mono; [|apply H1; exact Hk]. lia.
+  - eapply bounded_mono; [|exact H2]. lia.
+  - intros key Hk. rewrite jsc_lookup_frame by exact Hx. rewrite Hk.
+    destruct (bstr_eqb key x); [rewrite bstr_eqb_sym; apply bounded_fresh; exact H2|].
+    destruct (bstr_eqb key jk_limit); [rewrite bstr_eqb_sym; apply bounded_fresh; exact H2|].
+    destruct (bstr_eqb key jk_index); [rewrite bstr_eqb_sym; apply bounded_fresh; exact H2|]. apply H3; exact Hk.
+  - exact H4.
+  - intro y. rewrite jsc_loop_frame by exact Hx. destruct (bstr_eqb x y); cbn [fst snd].
+    + repeat split; try apply bounded_new; rewrite bstr_eqb_sym; apply bounded_fresh; exact H2.
+    + destruct (H5 y) as (A & B & C & D). repeat split; auto; eapply bounded_mono; eauto; lia.
+Qed.
+
 
 (* the counter never decreases *)
 Lemma sgen_mono_all mode :
@@ -237,6 +457,18 @@ Proof.
     destruct (bgen mode buf ([] :: sc) n th) as [jt n1] eqn:E1. destruct (egen mode buf sc n1 rest) as [jr n2] eqn:E2. inversion H; subst.
     specialize (IHt _ _ _ _ _ E1). specialize (IHr _ _ _ _ _ E2). lia.
   - intros v cs IHk buf sc n j sc' n' H. rewrite sgen_switch in H. destruct (kgen mode buf sc n cs) as [jc n1] eqn:E1. inversion H; subst. eapply IHk; eauto.
+  - intros x e body IHb hasie ie IHi buf sc n j sc' n' H. rewrite sgen_for in H.
+    destruct (bgen mode buf ([] :: loop_frame x (n + 1) :: sc) (n + 1) body) as [jb n1] eqn:E1. specialize (IHb _ _ _ _ _ E1).
+    destruct hasie.
+    + destruct (bgen mode buf ([] :: sc) n1 ie) as [ji n2] eqn:E2. specialize (IHi _ _ _ _ _ E2). inversion H; subst. lia.
+    + inversion H; subst. lia.
+  - intros x a1 rest body IHb hasie ie IHi buf sc n j sc' n' H. rewrite sgen_forrange in H.
+    destruct (bgen mode buf ([] :: loop_frame x (n + 1) :: sc) (n + 1) body) as [jb n1] eqn:E1. specialize (IHb _ _ _ _ _ E1).
+    destruct (match range_args (JENum 0) (JENum 1) (map (cgen sc) (a1 :: rest)) with Some t => t | None => (JENull, JENull, JENull) end) as [[ei el] es].
+    destruct hasie.
+    + destruct (bgen mode buf ([] :: sc) n1 ie) as [ji n2] eqn:E2. specialize (IHi _ _ _ _ _ E2). inversion H; subst. lia.
+    + inversion H; subst. lia.
+  - intros e sfx buf sc n j sc' n' H. inversion H. lia.
   - intros buf sc n jb n' H. inversion H. lia.
   - intros s IHs r IHr buf sc n jb n' H. rewrite bgen_cons in H.
     destruct (sgen mode buf sc n s) as [j [sc1 n1]] eqn:E1. destruct (bgen mode buf sc1 n1 r) as [jr n2] eqn:E2. inversion H; subst.
@@ -265,14 +497,44 @@ Proof.
     right. exists name. split; [reflexivity|]. exact (proj1 (proj2 (sgen_mono_all mode)) _ _ _ _ _ _ E1).
   - rewrite sgen_if in H. destruct (bgen mode buf ([] :: sc) n th) as [jt n1]. destruct (egen mode buf sc n1 rest) as [jr n2]. inversion H; auto.
   - rewrite sgen_switch in H. destruct (kgen mode buf sc n cs) as [jc n1]. inversion H; auto.
+  - rewrite sgen_for in H. destruct (bgen mode buf ([] :: loop_frame x (n + 1) :: sc) (n + 1) body) as [jb n1].
+    destruct hasie; [destruct (bgen mode buf ([] :: sc) n1 ie) as [ji n2]|]; inversion H; auto.
+  - rewrite sgen_forrange in H. destruct (bgen mode buf ([] :: loop_frame x (n + 1) :: sc) (n + 1) body) as [jb n1].
+    destruct (match range_args (JENum 0) (JENum 1) (map (cgen sc) (a1 :: rest)) with Some t => t | None => (JENull, JENull, JENull) end) as [[ei el] es].
+    destruct hasie; [destruct (bgen mode buf ([] :: sc) n1 ie) as [ji n2]|]; inversion H; auto.
+  - inversion H; auto.
 Qed.
 
-Lemma ginv_after mode buf sc n s j sc' n' : sgen mode buf sc n s = (j, (sc', n')) -> ginv sc n buf -> ginv sc' n' buf.
+(* the names a statement binds are identifiers *)
+Definition binder_ok (s : cstmt) : Prop :=
+  match s with SLet name _ | SLetC name _ => is_ident name = true | _ => True end.
+Lemma sgen_after_ident mode buf sc n s j sc' n' : binder_ok s -> sgen mode buf sc n s = (j, (sc', n')) ->
+  sc' = sc \/ (exists name, is_ident name = true /\ sc' = jsc_bind_pure sc name (jsc_name name (n + 1)) /\ n + 1 <= n').
 Proof.
-  intros H G. pose proof (proj1 (sgen_mono_all mode) _ _ _ _ _ _ _ H) as Hn.
-  destruct (sgen_after _ _ _ _ _ _ _ _ H) as [->|(name & -> & Hn')].
+  intros Hb H. destruct s as [t|e ds|nm e|nm body|c th rest|v cs|x e body hasie ie|x a1 rest body hasie ie|e sfx]; cbn [binder_ok] in Hb.
+  - inversion H; auto.
+  - inversion H; auto.
+  - inversion H; subst. right. exists nm. split; [exact Hb|]. split; [reflexivity|lia].
+  - rewrite sgen_letc in H. destruct (bgen mode (jsc_name nm (n + 1)) ([] :: sc) (n + 1) body) as [jb n1] eqn:E1. inversion H; subst.
+    right. exists nm. split; [exact Hb|]. split; [reflexivity|]. exact (proj1 (proj2 (sgen_mono_all mode)) _ _ _ _ _ _ E1).
+  - rewrite sgen_if in H. destruct (bgen mode buf ([] :: sc) n th) as [jt n1]. destruct (egen mode buf sc n1 rest) as [jr n2]. inversion H; auto.
+  - rewrite sgen_switch in H. destruct (kgen mode buf sc n cs) as [jc n1]. inversion H; auto.
+  - rewrite sgen_for in H. destruct (bgen mode buf ([] :: loop_frame x (n + 1) :: sc) (n + 1) body) as [jb n1].
+    destruct hasie; [destruct (bgen mode buf ([] :: sc) n1 ie) as [ji n2]|]; inversion H; auto.
+  - rewrite sgen_forrange in H. destruct (bgen mode buf ([] :: loop_frame x (n + 1) :: sc) (n + 1) body) as [jb n1].
+    destruct (match range_args (JENum 0) (JENum 1) (map (cgen sc) (a1 :: rest)) with Some t => t | None => (JENull, JENull, JENull) end) as [[ei el] es].
+    destruct hasie; [destruct (bgen mode buf ([] :: sc) n1 ie) as [ji n2]|]; inversion H; auto.
+  - inversion H; auto.
+Qed.
+Lemma swf_binder lv s : swf lv s = true -> binder_ok s.
+Proof. destruct s; cbn [swf binder_ok]; auto; intro H; apply andb_prop in H; apply H. Qed.
+
+Lemma ginv_after mode buf sc n s j sc' n' : binder_ok s -> sgen mode buf sc n s = (j, (sc', n')) -> ginv sc n buf -> ginv sc' n' buf.
+Proof.
+  intros Hb H G. pose proof (proj1 (sgen_mono_all mode) _ _ _ _ _ _ _ H) as Hn.
+  destruct (sgen_after_ident _ _ _ _ _ _ _ _ Hb H) as [->|(name & Hid & -> & Hn')].
   - eapply ginv_mono; eauto.
-  - eapply ginv_mono; [exact Hn'|]. apply ginv_bind. exact G.
+  - eapply ginv_mono; [exact Hn'|]. apply ginv_bind; [exact Hid|exact G].
 Qed.
 
 Lemma strict_eq_prim sv cv : prim_value sv = true -> prim_value cv = true ->
@@ -299,15 +561,17 @@ Proof.
 Qed.
 
 Lemma env_rel_push sc env je : env_rel sc ij env je -> env_rel ([] :: sc) ij env je.
-Proof. intros [Ev Ei Ec Eci]. constructor; auto. Qed.
+Proof. intros [Ev Ei Ec Eci El]. constructor; auto. intros x i H. rewrite jsc_loop_push. apply El; exact H. Qed.
 
 Lemma env_rel_frame buf sc n env je je' : ginv sc n buf -> env_rel sc ij env je -> frame buf n je je' -> env_rel sc ij env je'.
 Proof.
-  intros [H0 H1 H2 H3 H4] [Ev Ei Ec Eci] [D F]. constructor; auto.
-  - intros key Hk. specialize (Ev key Hk). destruct (jsc_lookup sc key) as [|c g] eqn:El.
+  intros [H0 H1 H2 H3 H4 H5] [Ev Ei Ec Eci El] [D F]. constructor; auto.
+  - intros key Hid Hk. specialize (Ev key Hid Hk). destruct (jsc_lookup sc key) as [|c g] eqn:El0.
     + rewrite D. exact Ev.
-    + rewrite F; [exact Ev| |]; rewrite <- El; [apply H1|apply H3].
+    + rewrite F; [exact Ev| |]; rewrite <- El0; [apply H1|apply H3]; (apply ident_neq_jk; [exact Hid|reflexivity]).
   - intros v Hv. rewrite F; [apply Ei; exact Hv|apply opt_ij_bounded|exact H4].
+  - intros x i Hx. destruct (El x i Hx) as (A & B & C). destruct (H5 x) as (P & Q & R & S0).
+    split; [exact A|]. split; [rewrite F; auto|]. intros l Hl. rewrite F; auto.
 Qed.
 
 Lemma jinv_frame buf sc n env je je' old new : ginv sc n buf -> jinv buf sc env je old -> frame buf n je je' ->
@@ -324,19 +588,21 @@ Proof.
 Qed.
 
 (* binding a Soy name to the fresh variable v_<n+1> that holds its value *)
-Lemma env_rel_bind buf sc n env je je' name v : ginv sc n buf -> env_rel sc ij env je -> frame buf n je je' ->
+Lemma env_rel_bind buf sc n env je je' name v : is_ident name = true -> ginv sc n buf -> env_rel sc ij env je -> frame buf n je je' ->
   assoc_s (jsc_name name (n + 1)) (je_vars je') = Some (to_js v) -> core_value v = true ->
   env_rel (jsc_bind_pure sc name (jsc_name name (n + 1))) ij (env_set env name v) je'.
 Proof.
-  intros G ER F Hg Hcv. pose proof (env_rel_frame buf sc n env je je' G ER F) as [Xv Xi Xc Xci].
-  destruct G as [G0 G1 G2 G3 G4]. constructor.
-  - intros key Hk. unfold env_val, env_set. destruct (bstr_eqb key name) eqn:Ekn.
+  intros Hid G ER F Hg Hcv. pose proof (env_rel_frame buf sc n env je je' G ER F) as [Xv Xi Xc Xci Xl].
+  destruct G as [G0 G1 G2 G3 G4 G5]. constructor.
+  - intros key Hkid Hk. unfold env_val, env_set. destruct (bstr_eqb key name) eqn:Ekn.
     + apply bstr_eqb_true in Ekn. subst key. rewrite jsc_lookup_bind_same by exact G0.
       destruct (jsc_name_cons name (n + 1)) as (c & r & Hc). rewrite Hc. rewrite <- Hc. exact Hg.
-    + rewrite jsc_lookup_bind_other by exact Ekn. specialize (Xv key Hk). unfold env_val in Xv. exact Xv.
+    + rewrite jsc_lookup_bind_other by exact Ekn. specialize (Xv key Hkid Hk). unfold env_val in Xv. exact Xv.
   - exact Xi.
   - intro key. unfold env_val, env_set. destruct (bstr_eqb key name); [exact Hcv|apply Xc].
   - exact Xci.
+  - intros x i. unfold env_set. rewrite (bstr_eqb_sym (x ++ jk_index)), (ident_neq_index name x Hid).
+    rewrite (bstr_eqb_sym (x ++ c_lastindex)), (ident_neq_lastindex name x Hid). rewrite jsc_loop_bind by exact Hid. apply Xl.
 Qed.
 
 Lemma khit_js sc env je sv vs : env_rel sc ij env je -> prim_value sv = true -> forall h,
@@ -378,6 +644,273 @@ Proof.
   apply (Hb buf ([] :: sc) n env je old text jb n'); auto. apply ginv_push; exact G. split; [apply env_rel_push; exact ER|exact Hbuf].
 Qed.
 
+(* ---- loops ---- *)
+(* setting a variable whose name carries the next counter touches nothing a frame of counter n talks about *)
+Lemma frame_set_new buf n je y v : frame buf n je (jvset je (jsc_name y (n + 1)) v).
+Proof. split; [reflexivity|]. intros g Hg _. cbn [jvset je_vars]. apply assoc_s_aset_other. apply bounded_fresh. exact Hg. Qed.
+Lemma frame_weaken buf n n1 a c : n <= n1 -> frame buf n1 a c -> frame buf n a c.
+Proof. intros Hn [D F]. split; [exact D|]. intros g Hg Hb. apply F; [eapply bounded_mono; eauto|exact Hb]. Qed.
+Lemma frame_comp buf n a c d : frame buf n a c -> frame buf n c d -> frame buf n a d.
+Proof. apply frame_trans. lia. Qed.
+
+Lemma small_between i m : (0 <= i <= m)%Z -> small m = true -> small i = true.
+Proof. unfold small. intros H Hm. apply Z.leb_le in Hm. apply Z.leb_le. lia. Qed.
+Lemma list_index_mid (pre : list value) v r : list_index (pre ++ v :: r) (Z.of_nat (length pre)) = v.
+Proof.
+  unfold list_index. rewrite app_length. cbn [length].
+  replace (Z.of_nat (length pre) <? 0)%Z with false by (symmetry; apply Z.ltb_ge; lia).
+  replace (Z.of_nat (length pre + S (length r)) <=? Z.of_nat (length pre))%Z with false by (symmetry; apply Z.leb_gt; lia).
+  cbn [orb]. rewrite Nat2Z.id, nth_error_app2 by lia. rewrite Nat.sub_diag. reflexivity.
+Qed.
+
+
+(* ---- range(): the list the renderer builds, and the count the generated code computes ---- *)
+Fixpoint lin_list (k : nat) (a st : Z) : list value :=
+  match k with O => [] | S k' => VInt a :: lin_list k' (a + st)%Z st end.
+Lemma lin_list_length k a st : length (lin_list k a st) = k.
+Proof. revert a. induction k as [|k IH]; intro a; cbn [lin_list length]; [reflexivity|]. rewrite IH. reflexivity. Qed.
+Lemma lin_list_mid st : forall pre k a v r, lin_list k a st = pre ++ v :: r -> v = VInt (a + Z.of_nat (length pre) * st).
+Proof.
+  induction pre as [|p pre IH]; intros k a v r H; destruct k as [|k]; cbn [lin_list app] in H; try discriminate.
+  - inversion H; subst. cbn [length Z.of_nat]. f_equal. lia.
+  - inversion H as [[Hp Hr]]. rewrite (IH k (a + st)%Z v r Hr). cbn [length]. f_equal. lia.
+Qed.
+(* the number of elements of range(a, l, st) *)
+Definition range_cnt (a l st : Z) : Z := Z.max 0 ((l - a + st - 1) / st).
+Lemma range_cnt_step a l st : (0 < st)%Z -> (a < l)%Z -> range_cnt a l st = (range_cnt (a + st) l st + 1)%Z.
+Proof.
+  intros Hs Hl. unfold range_cnt.
+  replace (l - a + st - 1)%Z with ((l - (a + st) + st - 1) + 1 * st)%Z by lia. rewrite Z.div_add by lia.
+  assert (0 <= (l - (a + st) + st - 1) / st)%Z by (apply Z.div_pos; lia). lia.
+Qed.
+Lemma range_cnt_zero a l st : (0 < st)%Z -> (l <= a)%Z -> range_cnt a l st = 0%Z.
+Proof.
+  intros Hs Hl. unfold range_cnt. assert ((l - a + st - 1) / st <= 0)%Z; [|lia].
+  apply Z.lt_succ_r. apply Z.div_lt_upper_bound; lia.
+Qed.
+Lemma range_items_spec st l : (0 < st)%Z -> forall f a, (range_cnt a l st <= Z.of_nat f)%Z ->
+  range_items f a l st = lin_list (Z.to_nat (range_cnt a l st)) a st.
+Proof.
+  intro Hs. induction f as [|f IH]; intros a Hf; cbn [range_items].
+  - replace (Z.to_nat (range_cnt a l st)) with 0%nat by (unfold range_cnt in *; lia). reflexivity.
+  - destruct (Z.ltb_spec a l) as [Hl|Hl].
+    + rewrite (range_cnt_step a l st Hs Hl). assert (0 <= range_cnt (a + st) l st)%Z by (unfold range_cnt; lia).
+      replace (Z.to_nat (range_cnt (a + st) l st + 1)) with (S (Z.to_nat (range_cnt (a + st) l st))) by lia.
+      cbn [lin_list]. f_equal. apply IH. rewrite (range_cnt_step a l st Hs Hl) in Hf. lia.
+    + rewrite range_cnt_zero by lia. reflexivity.
+Qed.
+(* Math.ceil(d / st) on integers *)
+Lemma ceil_div d st : (0 < st)%Z -> (- ((- d) / st) = (d + st - 1) / st)%Z.
+Proof.
+  intro Hs. pose proof (Z.div_mod d st ltac:(lia)) as Hd. pose proof (Z.mod_pos_bound d st Hs) as Hm.
+  set (q := (d / st)%Z) in *. set (m := (d mod st)%Z) in *.
+  destruct (Z.eq_dec m 0) as [Hz|Hz].
+  - replace (- d)%Z with ((- q) * st)%Z by lia. rewrite Z.div_mul by lia.
+    replace (d + st - 1)%Z with (st - 1 + q * st)%Z by lia. rewrite Z.div_add by lia. rewrite Z.div_small by lia. lia.
+  - replace (- d)%Z with ((st - m) + (- q - 1) * st)%Z by lia. rewrite Z.div_add by lia. rewrite (Z.div_small (st - m)) by lia.
+    replace (d + st - 1)%Z with ((m - 1) + (q + 1) * st)%Z by lia. rewrite Z.div_add by lia. rewrite (Z.div_small (m - 1)) by lia. lia.
+Qed.
+Lemma range_cnt_bound a l st : (0 < st)%Z -> (0 <= range_cnt a l st)%Z /\ ((range_cnt a l st - 1) * st <= Z.max 0 (l - a - 1))%Z
+  /\ (range_cnt a l st <= Z.max 0 (l - a))%Z.
+Proof.
+  intro Hs. unfold range_cnt. split; [lia|].
+  destruct (Z.ltb_spec a l) as [Hl|Hl].
+  - assert (H0 : (0 <= (l - a + st - 1) / st)%Z) by (apply Z.div_pos; lia).
+    pose proof (Z.mul_div_le (l - a + st - 1) st Hs) as H1.
+    assert (H2 : ((l - a + st - 1) / st <= l - a)%Z).
+    { apply Z.lt_succ_r. apply Z.div_lt_upper_bound; [lia|]. nia. }
+    split; [|lia]. rewrite Z.max_r by lia. nia.
+  - assert (H0 : ((l - a + st - 1) / st <= 0)%Z) by (apply Z.lt_succ_r; apply Z.div_lt_upper_bound; lia).
+    split; [|lia]. rewrite Z.max_l by lia. nia.
+Qed.
+
+(* the Soy environment inside a loop over $x: the loop's three variables, the rest as outside *)
+Definition loop_env (env envk : bstr -> option value) (x : bstr) (last : Z) : Prop :=
+  envk (x ++ c_lastindex) = Some (VInt last)
+  /\ forall key, bstr_eqb key x = false -> bstr_eqb key (x ++ jk_index) = false -> bstr_eqb key (x ++ c_lastindex) = false -> envk key = env key.
+
+Lemma loop_env_round env envk x last v i : is_ident x = true -> loop_env env envk x last ->
+  loop_env env (env_set (env_set envk x v) (x ++ jk_index) (VInt i)) x last.
+Proof.
+  intros Hx [L A]. split.
+  - unfold env_set. rewrite (bstr_eqb_sym (x ++ c_lastindex) (x ++ jk_index)), index_neq_lastindex.
+    rewrite (bstr_eqb_sym (x ++ c_lastindex) x), (ident_neq_lastindex x x Hx). exact L.
+  - intros key K1 K2 K3. unfold env_set. rewrite K2, K1. apply A; assumption.
+Qed.
+
+Lemma env_rel_round buf sc n env je envk je1 x last v i :
+  is_ident x = true -> ginv sc n buf -> env_rel sc ij env je -> frame buf n je je1 ->
+  loop_env env envk x last -> envk x = Some v -> envk (x ++ jk_index) = Some (VInt i) ->
+  core_value v = true -> small i = true -> small last = true ->
+  jvget je1 (jsc_name x (n + 1)) = Some (to_js v) -> jvget je1 (jsc_name (x ++ t_index) (n + 1)) = Some (JNum i) ->
+  jvget je1 (jsc_name (x ++ t_limit) (n + 1)) = Some (JNum (last + 1)) ->
+  env_rel (loop_frame x (n + 1) :: sc) ij envk je1.
+Proof.
+  intros Hx G ER F [L A] Ex Ei Hcv Hsi Hsl Jd Ji Jl.
+  pose proof (env_rel_frame buf sc n env je je1 G ER F) as [Xv Xi Xc Xci Xl]. constructor.
+  - intros key Hid Hk. rewrite jsc_lookup_frame by exact Hx. unfold env_val.
+    destruct (bstr_eqb key x) eqn:Ekx.
+    + apply bstr_eqb_true in Ekx. subst key. rewrite Ex. destruct (jsc_name_cons x (n + 1)) as (c0 & r0 & Hc). rewrite Hc. rewrite <- Hc. exact Jd.
+    + rewrite (ident_neq_jk key jk_var Hid eq_refl), (ident_neq_jk key jk_limit Hid eq_refl), (ident_neq_jk key jk_index Hid eq_refl).
+      rewrite (A key Ekx (ident_neq_index key x Hid) (ident_neq_lastindex key x Hid)). exact (Xv key Hid Hk).
+  - exact Xi.
+  - intro key. unfold env_val.
+    destruct (bstr_eqb key x) eqn:K1; [apply bstr_eqb_true in K1; subst; rewrite Ex; exact Hcv|].
+    destruct (bstr_eqb key (x ++ jk_index)) eqn:K2; [apply bstr_eqb_true in K2; subst; rewrite Ei; exact Hsi|].
+    destruct (bstr_eqb key (x ++ c_lastindex)) eqn:K3; [apply bstr_eqb_true in K3; subst; rewrite L; exact Hsl|].
+    rewrite (A key K1 K2 K3). apply Xc.
+  - exact Xci.
+  - intros y i' Hy. rewrite jsc_loop_frame by exact Hx. destruct (bstr_eqb x y) eqn:Exy.
+    + apply bstr_eqb_true in Exy. subst y. cbn [fst snd]. rewrite Ei in Hy. inversion Hy; subst i'.
+      split; [destruct (jsc_name_cons (x ++ t_index) (n + 1)) as (c0 & r0 & Hc); rewrite Hc; discriminate|].
+      split; [exact Ji|]. intros l Hl. rewrite L in Hl. inversion Hl; subst. exact Jl.
+    + assert (Hyx : bstr_eqb (y ++ jk_index) (x ++ jk_index) = false) by (rewrite app_same_tail_eqb, bstr_eqb_sym; exact Exy).
+      assert (K1 : bstr_eqb (y ++ jk_index) x = false) by (rewrite bstr_eqb_sym; apply ident_neq_index; exact Hx).
+      rewrite (A _ K1 Hyx (index_neq_lastindex y x)) in Hy.
+      destruct (Xl y i' Hy) as (P & Q & R). split; [exact P|]. split; [exact Q|].
+      intros l Hl. apply R. rewrite <- Hl. symmetry. apply A.
+      * rewrite bstr_eqb_sym; apply ident_neq_lastindex; exact Hx.
+      * rewrite bstr_eqb_sym. apply index_neq_lastindex.
+      * rewrite app_same_tail_eqb, bstr_eqb_sym; exact Exy.
+Qed.
+
+(* lia on the arithmetic hypotheses only (the contexts of the loop cases are large) *)
+Ltac keep_arith T :=
+  lazymatch T with
+  | @eq Z _ _ => idtac | @eq nat _ _ => idtac | @eq N _ _ => idtac
+  | Z.le _ _ => idtac | Z.lt _ _ => idtac | Z.ge _ _ => idtac | Z.gt _ _ => idtac
+  | le _ _ => idtac | lt _ _ => idtac | N.le _ _ => idtac | N.lt _ _ => idtac
+  | _ /\ _ => idtac | _ \/ _ => idtac | ~ _ => idtac
+  | _ => fail
+  end.
+Ltac alia := repeat match goal with H : ?T |- _ => tryif keep_arith T then fail else clear H end; lia.
+
+
+(* what the rounds need of the item expression: it gives the element of the round as long as the variables it reads are
+   stable, and these are variables of this loop other than the item and the index (a definition, so that the arithmetic
+   tactics do not look inside) *)
+Definition item_ok (n : N) (x : bstr) (l : list value) (item : jenv -> Z -> outcome jval) (stable : jenv -> Prop) : Prop :=
+  (forall je0 pre v r, stable je0 -> l = pre ++ v :: r -> item je0 (Z.of_nat (length pre)) = Ok (to_js v))
+  /\ (forall je0 je1, stable je0 ->
+        (forall y, y <> x -> y <> x ++ t_index -> jvget je1 (jsc_name y (n + 1)) = jvget je0 (jsc_name y (n + 1))) -> stable je1).
+
+(* the rounds of the generated for loop, from round |pre| on *)
+Lemma js_rounds body (HB : JP_b body) buf sc n x env je last l jb n2 :
+  is_ident x = true -> ginv sc n buf -> env_rel sc ij env je ->
+  bgen mode buf ([] :: loop_frame x (n + 1) :: sc) (n + 1) body = (jb, n2) ->
+  small (last + 1) = true -> (0 <= last)%Z -> Z.of_nat (length l) = (last + 1)%Z ->
+  forallb core_value l = true ->
+  forall (item : jenv -> Z -> outcome jval) (stable : jenv -> Prop), item_ok n x l item stable ->
+  forall items pre envk jek old text, l = pre ++ items ->
+    loop_env env envk x last ->
+    for_out (fun en => bout ij mode go_print_text en body) x envk (Z.of_nat (length pre)) items = Some text ->
+    frame buf n je jek -> jvget jek buf = Some (JStr old) ->
+    stable jek ->
+    jvget jek (jsc_name (x ++ t_limit) (n + 1)) = Some (JNum (last + 1)) ->
+    jvget jek (jsc_name (x ++ t_index) (n + 1)) = Some (JNum (Z.of_nat (length pre))) ->
+    exists je', js_for (fun en => jb_exec en jb) item (jsc_name x (n + 1))
+                       (jsc_name (x ++ t_limit) (n + 1)) (jsc_name (x ++ t_index) (n + 1)) (length items) jek = Ok je'
+      /\ jvget je' buf = Some (JStr (old ++ text)) /\ frame buf n je je'.
+Proof.
+  intros Hx G ER Eg Hsl1 Hl0 Hlen Hcore item stable HIK.
+  destruct (loop_names_distinct x (n + 1)) as (D1 & D2 & D3 & D4 & D5 & D6). cbn zeta in *.
+  set (vd := jsc_name x (n + 1)) in *. set (vlist := jsc_name (x ++ t_list) (n + 1)) in *.
+  set (vlen := jsc_name (x ++ t_limit) (n + 1)) in *. set (vidx := jsc_name (x ++ t_index) (n + 1)) in *.
+  pose proof (ginv_loop sc n buf x Hx G) as G1.
+  assert (Hsl : small last = true) by (apply (small_between last (last + 1)); [alia|exact Hsl1]).
+  assert (Bf : forall y, bstr_eqb buf (jsc_name y (n + 1)) = false) by (intro y; apply bounded_fresh; apply G).
+  assert (Bf' : forall y, bstr_eqb (jsc_name y (n + 1)) buf = false) by (intro y; rewrite bstr_eqb_sym; apply Bf).
+  induction items as [|v r IH]; intros pre envk jek old text Hl LE Ef Fk Hb Jl Jn Ji.
+  - cbn [for_out] in Ef. inversion Ef; subst text. rewrite app_nil_r in Hl. subst pre.
+    cbn [length js_for]. rewrite Ji, Jn.
+    replace (Z.of_nat (length l) <? last + 1)%Z with false by (symmetry; apply Z.ltb_ge; alia).
+    exists jek. rewrite app_nil_r. auto.
+  - cbn [for_out] in Ef. set (i := Z.of_nat (length pre)) in *.
+    set (env1 := env_set (env_set envk x v) (x ++ jk_index) (VInt i)) in *.
+    destruct (bout ij mode go_print_text env1 body) as [t|] eqn:Et; [|discriminate].
+    destruct (for_out (fun en => bout ij mode go_print_text en body) x env1 (i + 1)%Z r) as [t'|] eqn:Er; [|discriminate].
+    inversion Ef; subst text. clear Ef.
+    assert (Hlenl : length l = (length pre + S (length r))%nat) by (rewrite Hl, app_length; reflexivity).
+    assert (Hi : (0 <= i <= last)%Z) by (subst i; alia).
+    cbn [length js_for]. rewrite Ji, Jn.
+    replace (i <? last + 1)%Z with true by (symmetry; apply Z.ltb_lt; alia).
+    pose proof (proj1 HIK jek pre v r Jl Hl) as Hit. fold i in Hit. rewrite Hit. cbn [bind]. clear Hit.
+    set (je1 := jvset jek vd (to_js v)).
+    assert (F1 : frame buf n je je1) by (eapply frame_comp; [exact Fk|apply frame_set_new]).
+    assert (LE1 : loop_env env env1 x last) by (apply loop_env_round; assumption).
+    assert (Hv : core_value v = true).
+    { apply (proj1 (forallb_forall _ _) Hcore). rewrite Hl. apply in_or_app. right. left. reflexivity. }
+    assert (ER1 : env_rel (loop_frame x (n + 1) :: sc) ij env1 je1).
+    { apply (env_rel_round buf sc n env je env1 je1 x last v i Hx G ER F1 LE1).
+      - subst env1. unfold env_set. rewrite (ident_neq_index x x Hx), bstr_eqb_refl'. reflexivity.
+      - subst env1. unfold env_set. rewrite bstr_eqb_refl'. reflexivity.
+      - exact Hv.
+      - apply (small_between i last Hi Hsl).
+      - exact Hsl.
+      - apply assoc_s_aset.
+      - unfold jvget, je1. cbn [jvset je_vars]. rewrite assoc_s_aset_other by (rewrite bstr_eqb_sym; exact D3). exact Ji.
+      - unfold jvget, je1. cbn [jvset je_vars]. rewrite assoc_s_aset_other by (rewrite bstr_eqb_sym; exact D2). exact Jn. }
+    assert (Hb1 : assoc_s buf (je_vars je1) = Some (JStr old)).
+    { unfold je1. cbn [jvset je_vars]. rewrite assoc_s_aset_other by apply Bf. exact Hb. }
+    destruct (JP_block body HB buf (loop_frame x (n + 1) :: sc) (n + 1) env1 je1 old t jb n2 G1 Et (conj ER1 Hb1) Eg)
+      as (je2 & X & Hb2 & F2).
+    rewrite X. cbn [bind].
+    assert (Keep : forall y, bstr_eqb (jsc_name y (n + 1)) vd = false -> jvget je2 (jsc_name y (n + 1)) = jvget jek (jsc_name y (n + 1))).
+    { intros y Hy. unfold jvget. rewrite (proj2 F2) by (try apply bounded_new; apply Bf').
+      unfold je1. cbn [jvset je_vars]. apply assoc_s_aset_other. exact Hy. }
+    pose proof (Keep (x ++ t_index) ltac:(rewrite bstr_eqb_sym; exact D3)) as Ki. fold vidx in Ki. rewrite Ki, Ji.
+    unfold js_num. replace (small (i + 1)) with true by (symmetry; apply (small_between (i + 1) (last + 1)); [alia|exact Hsl1]). cbn [bind].
+    set (je3 := jvset je2 vidx (JNum (i + 1))).
+    assert (F3 : frame buf n je je3).
+    { eapply frame_comp; [exact F1|]. eapply frame_comp; [eapply frame_weaken; [|exact F2]; alia|apply frame_set_new]. }
+    destruct (IH (pre ++ [v]) env1 je3 (old ++ t) t') as (je' & X' & Hb' & F').
+    + rewrite <- app_assoc. exact Hl.
+    + exact LE1.
+    + rewrite app_length. cbn [length]. replace (Z.of_nat (length pre + 1)) with (i + 1)%Z by (subst i; alia). exact Er.
+    + exact F3.
+    + unfold jvget, je3. cbn [jvset je_vars]. rewrite assoc_s_aset_other by apply Bf. exact Hb2.
+    + apply (proj2 HIK jek je3 Jl). intros y Hy1 Hy2. unfold jvget at 1. unfold je3. cbn [jvset je_vars].
+      rewrite assoc_s_aset_other by (apply jsc_name_neq; exact Hy2). apply (Keep y). apply jsc_name_neq. exact Hy1.
+    + unfold jvget, je3. cbn [jvset je_vars]. rewrite assoc_s_aset_other by exact D6.
+      pose proof (Keep (x ++ t_limit) ltac:(rewrite bstr_eqb_sym; exact D2)) as Kn. fold vlen in Kn. unfold jvget in Kn. rewrite Kn. exact Jn.
+    + unfold jvget, je3. cbn [jvset je_vars]. rewrite assoc_s_aset. rewrite app_length. cbn [length]. f_equal. f_equal. subst i. clear - pre. lia.
+    + exists je'. split; [exact X'|]. split; [rewrite app_assoc; exact Hb'|exact F'].
+Qed.
+
+(* the arguments of range() on the JavaScript side *)
+Lemma range_args_js sc env je a1 rest zs a l st : env_rel sc ij env je -> cints ij env (a1 :: rest) = Some zs ->
+  range_args 0%Z 1%Z zs = Some (a, l, st) ->
+  exists ei el es, range_args (JENum 0) (JENum 1) (map (cgen sc) (a1 :: rest)) = Some (ei, el, es)
+    /\ small a = true /\ small l = true /\ small st = true
+    /\ forall je', env_rel sc ij env je' -> js_eval je' ei = Ok (JNum a) /\ js_eval je' el = Ok (JNum l) /\ js_eval je' es = Ok (JNum st).
+Proof.
+  intros ER Hc Hr.
+  assert (Hone : forall e z, ceval ij env e = Some (VInt z) ->
+            small z = true /\ forall je', env_rel sc ij env je' -> js_eval je' (cgen sc e) = Ok (JNum z)).
+  { intros e z He. split; [exact (proj2 (cgen_correct sc ij env je ER e (VInt z) He))|].
+    intros je' ER'. exact (proj1 (cgen_correct sc ij env je' ER' e (VInt z) He)). }
+  cbn [cints] in Hc. destruct (ceval ij env a1) as [[| | |z1| | | |]|] eqn:E1; try discriminate.
+  destruct (Hone a1 z1 E1) as [S1 J1].
+  destruct rest as [|e2 rest].
+  - cbn [cints] in Hc. inversion Hc; subst zs. cbn [range_args] in Hr. inversion Hr; subst.
+    exists (JENum 0), (cgen sc a1), (JENum 1). split; [reflexivity|]. repeat split; auto; try (apply J1; assumption).
+  - cbn [cints] in Hc. destruct (ceval ij env e2) as [[| | |z2| | | |]|] eqn:E2; try discriminate.
+    destruct (Hone e2 z2 E2) as [S2 J2].
+    destruct rest as [|e3 rest].
+    + cbn [cints] in Hc. inversion Hc; subst zs. cbn [range_args] in Hr. inversion Hr; subst.
+      exists (cgen sc a1), (cgen sc e2), (JENum 1). split; [reflexivity|]. repeat split; auto; try (apply J1; assumption); try (apply J2; assumption).
+    + cbn [cints] in Hc. destruct (ceval ij env e3) as [[| | |z3| | | |]|] eqn:E3; try discriminate.
+      destruct (Hone e3 z3 E3) as [S3 J3].
+      destruct rest as [|e4 rest].
+      * cbn [cints] in Hc. inversion Hc; subst zs. cbn [range_args] in Hr. inversion Hr; subst.
+        exists (cgen sc a1), (cgen sc e2), (cgen sc e3). split; [reflexivity|]. repeat split; auto; try (apply J1; assumption); try (apply J2; assumption); try (apply J3; assumption).
+      * cbn [cints] in Hc. destruct (ceval ij env e4) as [[| | |z4| | | |]|]; try discriminate.
+        destruct (cints ij env rest) as [zr|]; try discriminate. inversion Hc; subst zs. cbn [range_args] in Hr. discriminate.
+Qed.
+
+Lemma small_in a l v : small a = true -> small l = true -> (a <= v <= l \/ l <= v <= a)%Z -> small v = true.
+Proof. unfold small. intros Ha Hl H. apply Z.leb_le in Ha, Hl. apply Z.leb_le. lia. Qed.
+
 Theorem js_exec_all : (forall s, JP_s s) /\ (forall b, JP_b b) /\ (forall e, JP_e e) /\ (forall k, JP_k k).
 Proof.
   apply cstmt_mutind.
@@ -393,7 +926,8 @@ Proof.
     cbn [js_exec]. unfold js_append. rewrite Ej. cbn [bind]. rewrite Tj, Hb. cbn [bind snd]. eexists. split; [reflexivity|].
     split; [eapply jinv_append; eauto; split; assumption|apply append_frame].
   - (* let *) intros name e buf sc n env je old text env' j sc' n' G E I Eg. rewrite sout_let in E. rewrite sgen_let in Eg. inversion Eg; subst. clear Eg.
-    destruct (bstr_eqb name n_ij) eqn:Hnij; [discriminate|]. destruct (ceval ij env e) as [v|] eqn:Ev; [|discriminate]. inversion E; subst. clear E.
+    destruct (bstr_eqb name n_ij) eqn:Hnij; [discriminate|]. destruct (is_ident name) eqn:Hid; [|discriminate].
+    destruct (ceval ij env e) as [v|] eqn:Ev; [|discriminate]. inversion E; subst. clear E.
     destruct I as [ER Hb]. destruct (cgen_correct sc ij env je ER e v Ev) as [Hj Hcv].
     rewrite js_exec_var, Hj. cbn [bind]. eexists. split; [reflexivity|]. rewrite app_nil_r.
     set (g := jsc_name name (n + 1)).
@@ -401,9 +935,9 @@ Proof.
     assert (Hfr : frame buf n je {| je_vars := aset (je_vars je) g (to_js v); je_data := je_data je |}).
     { split; [reflexivity|]. intros g0 H0 _. cbn [je_vars]. apply assoc_s_aset_other. apply bounded_fresh. exact H0. }
     split; [|exact Hfr]. split; [|cbn [je_vars]; rewrite assoc_s_aset_other by exact Hbg; exact Hb].
-    apply (env_rel_bind buf sc n env je _ name v G ER Hfr); [apply assoc_s_aset|exact Hcv].
+    apply (env_rel_bind buf sc n env je _ name v Hid G ER Hfr); [apply assoc_s_aset|exact Hcv].
   - (* let, content form *) intros name body IHb buf sc n env je old text env' j sc' n' G E I Eg. rewrite sout_letc in E. rewrite sgen_letc in Eg.
-    destruct (bstr_eqb name n_ij) eqn:Hnij; [discriminate|].
+    destruct (bstr_eqb name n_ij) eqn:Hnij; [discriminate|]. destruct (is_ident name) eqn:Hid; [|discriminate].
     destruct (bout ij mode go_print_text env body) as [t|] eqn:Et; [|discriminate]. inversion E; subst. clear E.
     set (g := jsc_name name (n + 1)) in *.
     destruct (bgen mode g ([] :: sc) (n + 1) body) as [jb n1] eqn:E1. inversion Eg; subst. clear Eg.
@@ -414,12 +948,13 @@ Proof.
     { split; [reflexivity|]. intros g0 H0 _. cbn [je_vars]. apply assoc_s_aset_other. apply bounded_fresh. exact H0. }
     (* the body runs with the new variable as its buffer *)
     assert (G' : ginv sc (n + 1) g).
-    { destruct G as [G0 G1 G2 G3 G4]. constructor.
+    { destruct G as [G0 G1 G2 G3 G4 G5]. constructor.
       - exact G0.
-      - intro key. eapply bounded_mono; [|apply G1]. lia.
+      - intros key Hk. eapply bounded_mono; [|apply G1; exact Hk]. lia.
       - apply bounded_new.
-      - intro key. apply bounded_fresh. apply G1.
-      - apply bounded_fresh. apply opt_ij_bounded. }
+      - intros key Hk. apply bounded_fresh. apply G1; exact Hk.
+      - apply bounded_fresh. apply opt_ij_bounded.
+      - intro x. destruct (G5 x) as (A & B & _ & _). repeat split; try (eapply bounded_mono; [|eassumption]; lia); apply bounded_fresh; assumption. }
     assert (I0 : jinv g sc env je0 []).
     { split; [exact (env_rel_frame buf sc n env je je0 G ER F0)|]. exact (assoc_s_aset g (JStr []) (je_vars je)). }
     destruct (JP_block body IHb g sc (n + 1) env je0 [] t jb n' G' Et I0 E1) as (je1 & X1 & Hg1 & [D1 F1]).
@@ -431,7 +966,7 @@ Proof.
       - eapply bounded_mono; [|exact H0]. lia.
       - apply bounded_fresh. exact H0. }
     split; [|exact F]. split.
-    + apply (env_rel_bind buf sc n env je je1 name (VStr t) G ER F); [exact Hg1|reflexivity].
+    + apply (env_rel_bind buf sc n env je je1 name (VStr t) Hid G ER F); [exact Hg1|reflexivity].
     + rewrite F1; [|eapply bounded_mono; [|apply (gi_buf _ _ _ G)]; lia|exact Hbg]. cbn [je_vars je0]. rewrite assoc_s_aset_other by exact Hbg. exact Hb.
   - (* if *) intros c th IHt rest IHr buf sc n env je old text env' j sc' n' G E I Eg. rewrite sout_if in E. rewrite sgen_if in Eg.
     destruct (bgen mode buf ([] :: sc) n th) as [jt n1] eqn:E1. destruct (egen mode buf sc n1 rest) as [jr n2] eqn:E2. inversion Eg; subst. clear Eg.
@@ -455,6 +990,191 @@ Proof.
     rewrite js_exec_switch, Hj. cbn [bind].
     destruct (IHk buf sc' n env' je old text sv jc n' G Hp Et I E1) as (je' & X & Hb' & F).
     exists je'. split; [exact X|]. split; [eapply jinv_frame; eauto|exact F].
+  - (* foreach *) intros x e body IHb hasie ie IHi buf sc n env je old text env' j sc' n' G E I Eg. rewrite sout_for in E. rewrite sgen_for in Eg.
+    destruct (is_ident x) eqn:Hx; [|discriminate]. destruct (bstr_eqb x n_ij) eqn:Hxij; [discriminate|]. cbn [andb negb] in E.
+    destruct (ceval ij env e) as [[| | | | | |lid l|]|] eqn:Ev; try discriminate.
+    destruct (small (Z.of_nat (length l))) eqn:Hsm; [|discriminate].
+    destruct (bgen mode buf ([] :: loop_frame x (n + 1) :: sc) (n + 1) body) as [jb n1] eqn:E1.
+    pose proof (proj1 (proj2 (sgen_mono_all mode)) _ _ _ _ _ _ E1) as Hn1.
+    pose proof I as [ER Hb]. destruct (cgen_correct sc ij env je ER e _ Ev) as [Hj Hcv]. cbn [to_js] in Hj. cbn [core_value] in Hcv.
+    destruct (loop_names_distinct x (n + 1)) as (D1 & D2 & D3 & D4 & D5 & D6). cbn zeta in *.
+    set (vd := jsc_name x (n + 1)) in *. set (vlist := jsc_name (x ++ t_list) (n + 1)) in *.
+    set (vlen := jsc_name (x ++ t_limit) (n + 1)) in *. set (vidx := jsc_name (x ++ t_index) (n + 1)) in *.
+    assert (Bf : forall y, bstr_eqb buf (jsc_name y (n + 1)) = false) by (intro y; apply bounded_fresh; apply G).
+    set (je2 := jvset (jvset je vlist (JArr (map to_js l))) vlen (JNum (Z.of_nat (length l)))).
+    assert (F2 : frame buf n je je2) by (eapply frame_comp; apply frame_set_new).
+    assert (Hb2 : assoc_s buf (je_vars je2) = Some (JStr old)).
+    { unfold je2. cbn [jvset je_vars]. rewrite !assoc_s_aset_other by apply Bf. exact Hb. }
+    destruct l as [|v0 r0].
+    + (* the empty list *)
+      destruct hasie.
+      * destruct (bgen mode buf ([] :: sc) n1 ie) as [ji n2] eqn:E2. inversion Eg; subst. clear Eg.
+        destruct (bout ij mode go_print_text env ie) as [t|] eqn:Et; [|discriminate]. inversion E; subst. clear E.
+        rewrite js_exec_foreach, Hj. cbn [bind map length Z.of_nat andb]. replace (0 <=? 0)%Z with true by reflexivity. cbn iota. fold je2.
+        assert (I2 : jinv buf sc' env' je2 old) by (split; [exact (env_rel_frame buf sc' n env' je je2 G ER F2)|exact Hb2]).
+        destruct (JP_block ie IHi buf sc' n1 env' je2 old text ji n' (ginv_mono sc' n n1 buf ltac:(alia) G) Et I2 E2) as (je' & X & Hb' & F').
+        assert (F : frame buf n je je') by (eapply frame_comp; [exact F2|eapply frame_weaken; [|exact F']; alia]).
+        exists je'. split; [exact X|]. split; [exact (jinv_frame buf sc' n env' je je' old _ G I F Hb')|exact F].
+      * inversion Eg; subst. clear Eg. inversion E; subst. clear E.
+        rewrite js_exec_foreach, Hj. cbn [bind map length Z.of_nat andb]. fold je2.
+        cbn [js_for]. unfold jvget. cbn [jvset je_vars]. rewrite assoc_s_aset.
+        rewrite assoc_s_aset_other by exact D6. rewrite assoc_s_aset.
+        replace (0 <? 0)%Z with false by reflexivity. eexists. split; [reflexivity|]. rewrite app_nil_r.
+        assert (F : frame buf n je (jvset je2 vidx (JNum 0))) by (eapply frame_comp; [exact F2|apply frame_set_new]).
+        split; [|exact F]. eapply jinv_frame; eauto. cbn [jvset je_vars]. rewrite assoc_s_aset_other by apply Bf. exact Hb2.
+    + (* at least one element *)
+      set (l := v0 :: r0) in *.
+      set (last := (Z.of_nat (length l) - 1)%Z) in *.
+      destruct (for_out (fun en => bout ij mode go_print_text en body) x (env_set env (x ++ c_lastindex) (VInt last)) 0%Z l) as [t|] eqn:Ef; [|discriminate].
+      assert (En : n' = if hasie then snd (bgen mode buf ([] :: sc) n1 ie) else n1).
+      { destruct hasie; [destruct (bgen mode buf ([] :: sc) n1 ie) as [ji n2]|]; inversion Eg; reflexivity. }
+      assert (Ej : exists ji, j = JSForeach vd vlist vlen vidx (cgen sc e) jb hasie ji /\ sc' = sc).
+      { destruct hasie; [destruct (bgen mode buf ([] :: sc) n1 ie) as [ji n2]|]; inversion Eg; eexists; split; reflexivity. }
+      destruct Ej as (ji & -> & ->). inversion E; subst t env'. clear E.
+      rewrite js_exec_foreach, Hj. cbn [bind]. rewrite map_length. fold je2.
+      replace (hasie && (Z.of_nat (length l) <=? 0)%Z) with false by (subst l; cbn [length]; rewrite andb_comm; symmetry; apply andb_false_intro1; apply Z.leb_gt; alia).
+      set (je3 := jvset je2 vidx (JNum 0)).
+      assert (F3 : frame buf n je je3) by (eapply frame_comp; [exact F2|apply frame_set_new]).
+      assert (LE : loop_env env (env_set env (x ++ c_lastindex) (VInt last)) x last).
+      { split; [unfold env_set; rewrite bstr_eqb_refl'; reflexivity|]. intros key _ _ K3. unfold env_set. rewrite K3. reflexivity. }
+      destruct (js_rounds body IHb buf sc n x env je last l jb n1 Hx G ER E1) with (items := l) (pre := @nil value)
+          (item := js_item_elem vlist) (stable := fun en => jvget en vlist = Some (JArr (map to_js l)))
+          (envk := env_set env (x ++ c_lastindex) (VInt last)) (jek := je3) (old := old) (text := text) as (je' & X & Hb' & F').
+      * replace (last + 1)%Z with (Z.of_nat (length l)) by (subst last; alia). exact Hsm.
+      * subst last l. cbn [length]. alia.
+      * subst last. alia.
+      * exact Hcv.
+      * split.
+        -- intros je0 pre v r S0 Hl. unfold js_item_elem. rewrite S0, js_index_arr, Hl, list_index_mid. reflexivity.
+        -- intros je0 je1 S0 Hk. subst vlist. rewrite Hk; [exact S0|intro Q; symmetry in Q; revert Q; apply app_neq_self; discriminate|apply app_neq_tails; discriminate].
+      * reflexivity.
+      * exact LE.
+      * exact Ef.
+      * exact F3.
+      * unfold jvget, je3. cbn [jvset je_vars]. rewrite assoc_s_aset_other by apply Bf. exact Hb2.
+      * unfold jvget, je3, je2. cbn [jvset je_vars]. rewrite assoc_s_aset_other by exact D5. rewrite assoc_s_aset_other by exact D4. apply assoc_s_aset.
+      * unfold jvget, je3, je2. cbn [jvset je_vars]. rewrite assoc_s_aset_other by exact D6. rewrite assoc_s_aset. f_equal. f_equal. subst last. alia.
+      * unfold jvget, je3. cbn [jvset je_vars]. apply assoc_s_aset.
+      * exists je'. split; [exact X|]. split; [eapply jinv_frame; eauto|exact F'].
+  - (* for over range() *) intros x a1 rest body IHb hasie ie IHi buf sc n env je old text env' j sc' n' G E I Eg.
+    rewrite sout_forrange in E. rewrite sgen_forrange in Eg.
+    destruct (is_ident x) eqn:Hx; [|discriminate]. destruct (bstr_eqb x n_ij) eqn:Hxij; [discriminate|]. cbn [andb negb] in E.
+    destruct (cints ij env (a1 :: rest)) as [zs|] eqn:Hc; [|discriminate].
+    destruct (range_args 0%Z 1%Z zs) as [[[a l] st]|] eqn:Hr; [|discriminate].
+    destruct (0 <? st)%Z eqn:Hst; [|discriminate]. destruct (small (l - a)) eqn:Hsd; [|discriminate]. cbn [andb] in E. cbn zeta in E.
+    apply Z.ltb_lt in Hst. pose proof I as [ER Hb].
+    destruct (range_args_js sc env je a1 rest zs a l st ER Hc Hr) as (ei & el & es & Hra & Hsa & Hsl & Hss & Hev).
+    rewrite Hra in Eg.
+    destruct (bgen mode buf ([] :: loop_frame x (n + 1) :: sc) (n + 1) body) as [jb n1] eqn:E1.
+    pose proof (proj1 (proj2 (sgen_mono_all mode)) _ _ _ _ _ _ E1) as Hn1.
+    destruct (range_cnt_bound a l st Hst) as (C0 & C1 & C2).
+    rewrite (range_items_spec st l Hst) in E by alia. set (cnt := range_cnt a l st) in *.
+    assert (Hscnt : small cnt = true).
+    { unfold small in *. apply Z.leb_le in Hsd. apply Z.leb_le. alia. }
+    set (vd := jsc_name x (n + 1)) in *. set (vinit := jsc_name (x ++ t_init) (n + 1)) in *. set (vstep := jsc_name (x ++ t_step) (n + 1)) in *.
+    set (vlen := jsc_name (x ++ t_limit) (n + 1)) in *. set (vidx := jsc_name (x ++ t_index) (n + 1)) in *.
+    assert (N1 : bstr_eqb vinit vstep = false) by (apply jsc_name_neq, app_neq_tails; discriminate).
+    assert (N2 : bstr_eqb vinit vlen = false) by (apply jsc_name_neq, app_neq_tails; discriminate).
+    assert (N3 : bstr_eqb vstep vlen = false) by (apply jsc_name_neq, app_neq_tails; discriminate).
+    assert (N4 : bstr_eqb vlen vidx = false) by (apply jsc_name_neq, app_neq_tails; discriminate).
+    assert (Bf : forall y, bstr_eqb buf (jsc_name y (n + 1)) = false) by (intro y; apply bounded_fresh; apply G).
+    set (je1 := jvset je vinit (JNum a)). set (je2 := jvset je1 vstep (JNum st)). set (je3 := jvset je2 vlen (JNum cnt)).
+    assert (F1 : frame buf n je je1) by apply frame_set_new.
+    assert (F2 : frame buf n je je2) by (eapply frame_comp; [exact F1|apply frame_set_new]).
+    assert (F3 : frame buf n je je3) by (eapply frame_comp; [exact F2|apply frame_set_new]).
+    assert (Hb3 : assoc_s buf (je_vars je3) = Some (JStr old)).
+    { unfold je3, je2, je1. cbn [jvset je_vars]. rewrite !assoc_s_aset_other by apply Bf. exact Hb. }
+    assert (Ej : exists ji, j = JSForRange vd vinit vstep vlen vidx ei es el jb hasie ji /\ sc' = sc
+                            /\ (if hasie then bgen mode buf ([] :: sc) n1 ie else (JBNil, n1)) = (ji, n')).
+    { destruct hasie; [destruct (bgen mode buf ([] :: sc) n1 ie) as [ji n2]|]; inversion Eg; eexists; repeat split; reflexivity. }
+    destruct Ej as (ji & -> & -> & Eji). clear Eg.
+    (* the three declarations *)
+    rewrite js_exec_forrange. rewrite (proj1 (Hev je ER)). cbn [bind]. fold je1.
+    rewrite (proj2 (proj2 (Hev je1 (env_rel_frame buf sc n env je je1 G ER F1)))). cbn [bind]. fold je2.
+    rewrite (proj1 (proj2 (Hev je2 (env_rel_frame buf sc n env je je2 G ER F2)))). cbn [bind].
+    assert (J2i : jvget je2 vinit = Some (JNum a)) by (unfold jvget, je2, je1; cbn [jvset je_vars]; rewrite assoc_s_aset_other by exact N1; apply assoc_s_aset).
+    assert (J2s : jvget je2 vstep = Some (JNum st)) by (unfold jvget, je2; cbn [jvset je_vars]; apply assoc_s_aset).
+    rewrite J2i, J2s. unfold js_range_count. replace (st =? 0)%Z with false by (symmetry; apply Z.eqb_neq; alia). rewrite Hsd.
+    rewrite ceil_div by exact Hst. fold (range_cnt a l st). fold cnt. unfold js_num. rewrite Hscnt. cbn [bind]. fold je3.
+    destruct (Z.to_nat cnt) as [|k] eqn:Ek.
+    + (* no element *) assert (cnt = 0%Z) by alia. cbn [lin_list] in E.
+      replace (cnt <=? 0)%Z with true by (symmetry; apply Z.leb_le; alia). rewrite andb_true_r.
+      destruct hasie.
+      * destruct (bout ij mode go_print_text env ie) as [t|] eqn:Et; [|discriminate]. inversion E; subst. clear E.
+        assert (I3 : jinv buf sc env' je3 old) by (split; [exact (env_rel_frame buf sc n env' je je3 G ER F3)|exact Hb3]).
+        destruct (JP_block ie IHi buf sc n1 env' je3 old text ji n' (ginv_mono sc n n1 buf ltac:(alia) G) Et I3 Eji) as (je' & X & Hb' & F').
+        assert (F : frame buf n je je') by (eapply frame_comp; [exact F3|eapply frame_weaken; [|exact F']; alia]).
+        exists je'. split; [exact X|]. split; [exact (jinv_frame buf sc n env' je je' old _ G I F Hb')|exact F].
+      * inversion E; subst. clear E. cbn [js_for]. unfold jvget. cbn [jvset je_vars]. rewrite assoc_s_aset.
+        rewrite assoc_s_aset_other by exact N4. unfold je3 at 1. cbn [jvset je_vars]. rewrite assoc_s_aset.
+        replace (0 <? cnt)%Z with false by (symmetry; apply Z.ltb_ge; alia). eexists. split; [reflexivity|]. rewrite app_nil_r.
+        assert (F : frame buf n je (jvset je3 vidx (JNum 0))) by (eapply frame_comp; [exact F3|apply frame_set_new]).
+        split; [|exact F]. eapply jinv_frame; eauto. cbn [jvset je_vars]. rewrite assoc_s_aset_other by apply Bf. exact Hb3.
+    + (* at least one element *)
+      set (l0 := lin_list (S k) a st) in *.
+      assert (Hlen0 : length l0 = S k) by apply lin_list_length.
+      assert (Hl0 : exists v0 r0, l0 = v0 :: r0) by (unfold l0; cbn [lin_list]; eauto). destruct Hl0 as (v0 & r0 & Hl0).
+      rewrite Hl0 in E. rewrite <- Hl0 in E.
+      replace (hasie && (cnt <=? 0)%Z) with false by (rewrite andb_comm; symmetry; apply andb_false_intro1; apply Z.leb_gt; alia).
+      set (last := (Z.of_nat (length l0) - 1)%Z) in *.
+      destruct (for_out (fun en => bout ij mode go_print_text en body) x (env_set env (x ++ c_lastindex) (VInt last)) 0%Z l0) as [t|] eqn:Ef; [|discriminate].
+      inversion E; subst t env'. clear E.
+      assert (Hcl : (cnt = last + 1)%Z) by (subst last; rewrite Hlen0; alia).
+      (* every element is a + j * st with 0 <= j < cnt, between a and l *)
+      assert (Helem : forall pre v r, l0 = pre ++ v :: r ->
+                v = VInt (a + Z.of_nat (length pre) * st) /\ (0 <= Z.of_nat (length pre) * st <= Z.max 0 (l - a - 1))%Z).
+      { intros pre v r Hs. split; [exact (lin_list_mid st pre (S k) a v r Hs)|].
+        assert (length l0 = (length pre + S (length r))%nat) by (rewrite Hs, app_length; reflexivity).
+        repeat match goal with H : ?T |- _ => tryif keep_arith T then fail else clear H end. nia. }
+      assert (Hcore : forallb core_value l0 = true).
+      { apply forallb_forall. intros v Hv. destruct (in_split v l0 Hv) as (pre & r & Hs). destruct (Helem pre v r Hs) as [-> Hb0].
+        cbn [core_value]. apply (small_in a l); [exact Hsa|exact Hsl|]. left. alia. }
+      set (je4 := jvset je3 vidx (JNum 0)).
+      assert (F4 : frame buf n je je4) by (eapply frame_comp; [exact F3|apply frame_set_new]).
+      assert (LE : loop_env env (env_set env (x ++ c_lastindex) (VInt last)) x last).
+      { split; [unfold env_set; rewrite bstr_eqb_refl'; reflexivity|]. intros key _ _ K3. unfold env_set. rewrite K3. reflexivity. }
+      replace (S k) with (length l0) by exact Hlen0.
+      destruct (js_rounds body IHb buf sc n x env je last l0 jb n1 Hx G ER E1) with (items := l0) (pre := @nil value)
+          (item := js_item_lin vinit vstep) (stable := fun en => jvget en vinit = Some (JNum a) /\ jvget en vstep = Some (JNum st))
+          (envk := env_set env (x ++ c_lastindex) (VInt last)) (jek := je4) (old := old) (text := text) as (je' & X & Hb' & F').
+      * rewrite <- Hcl. exact Hscnt.
+      * alia.
+      * alia.
+      * exact Hcore.
+      * split.
+        -- intros je0 pre v r [S1 S2] Hs. destruct (Helem pre v r Hs) as [-> Hb0]. unfold js_item_lin. rewrite S1, S2. unfold js_num.
+           replace (small (Z.of_nat (length pre) * st)) with true
+             by (symmetry; apply (small_in 0 (l - a)); [reflexivity|exact Hsd|left; alia]). cbn [bind].
+           replace (small (a + Z.of_nat (length pre) * st)) with true
+             by (symmetry; apply (small_in a l); [exact Hsa|exact Hsl|left; alia]). reflexivity.
+        -- intros je0 je1' [S1 S2] Hk. unfold vinit, vstep in *. split; (rewrite Hk; [assumption| |]);
+             first [apply app_neq_tails; discriminate | (intro Q; symmetry in Q; revert Q; apply app_neq_self; discriminate)].
+      * reflexivity.
+      * exact LE.
+      * exact Ef.
+      * exact F4.
+      * unfold jvget, je4. cbn [jvset je_vars]. rewrite assoc_s_aset_other by apply Bf. exact Hb3.
+      * split.
+        -- unfold jvget, je4, je3. cbn [jvset je_vars]. rewrite assoc_s_aset_other by (apply jsc_name_neq, app_neq_tails; discriminate).
+           rewrite assoc_s_aset_other by exact N2. exact J2i.
+        -- unfold jvget, je4, je3. cbn [jvset je_vars]. rewrite assoc_s_aset_other by (apply jsc_name_neq, app_neq_tails; discriminate).
+           rewrite assoc_s_aset_other by exact N3. exact J2s.
+      * unfold jvget, je4, je3. cbn [jvset je_vars]. rewrite assoc_s_aset_other by exact N4. rewrite assoc_s_aset. f_equal. f_equal. exact Hcl.
+      * unfold jvget, je4. cbn [jvset je_vars]. apply assoc_s_aset.
+      * exists je'. split; [exact X|]. split; [eapply jinv_frame; eauto|exact F'].
+  - (* css *) intros e sfx buf sc n env je old text env' j sc' n' G E I Eg. rewrite sout_css in E. rewrite sgen_css in Eg. inversion Eg; subst. clear Eg.
+    rewrite js_exec_css. pose proof I as [ER Hb]. destruct e as [x|].
+    + destruct (ceval ij env x) as [v|] eqn:Ev; [|discriminate]. destruct (scalar_string v) as [str|] eqn:Es; [|discriminate]. inversion E; subst. clear E.
+      destruct (scalar_string_ok v str Es) as (_ & _ & Ht). destruct (cgen_correct sc' ij env' je ER x v Ev) as [Hj _].
+      rewrite Hj. cbn [bind]. rewrite Ht. unfold js_append_text at 1. rewrite Hb. cbn [bind].
+      pose proof (jinv_append buf sc' n' env' je old (str ++ [45]) G I) as I1.
+      set (je1 := {| je_vars := aset (je_vars je) buf (JStr (old ++ str ++ [45])); je_data := je_data je |}) in *.
+      unfold js_append_text. rewrite (proj2 I1). eexists. split; [reflexivity|].
+      split; [replace (old ++ (str ++ [45]) ++ sfx) with ((old ++ str ++ [45]) ++ sfx) by (rewrite <- app_assoc; reflexivity);
+              exact (jinv_append buf sc' n' env' je1 _ sfx G I1)|].
+      eapply frame_comp; apply append_frame.
+    + inversion E; subst. clear E. cbn [bind]. unfold js_append_text. rewrite Hb. eexists. split; [reflexivity|].
+      split; [eapply jinv_append; eauto|apply append_frame].
   - (* BNil *) intros buf sc n env je old text jb n' G E I Eg. rewrite bout_nil in E. rewrite bgen_nil in Eg. inversion E; subst. inversion Eg; subst.
     exists je. rewrite app_nil_r. split; [reflexivity|]. split; [apply I|apply frame_refl].
   - (* BCons *) intros s IHs r IHr buf sc n env je old text jb n' G E I Eg. rewrite bout_cons in E. rewrite bgen_cons in Eg.
@@ -462,7 +1182,11 @@ Proof.
     destruct (sout ij mode go_print_text env s) as [[a env1]|] eqn:Ea; [|discriminate].
     destruct (bout ij mode go_print_text env1 r) as [c|] eqn:Ec; [|discriminate]. inversion E; subst. clear E.
     destruct (IHs buf sc n env je old a env1 j sc1 n1 G Ea I E1) as (je1 & X1 & I1 & F1).
-    pose proof (ginv_after _ _ _ _ _ _ _ _ E1 G) as G1. pose proof (proj1 (sgen_mono_all mode) _ _ _ _ _ _ _ E1) as Hn1.
+    assert (Hbo : binder_ok s).
+    { destruct s; cbn [binder_ok]; auto.
+      - rewrite sout_let in Ea. destruct (bstr_eqb name n_ij); [discriminate|]. destruct (is_ident name); [reflexivity|discriminate].
+      - rewrite sout_letc in Ea. destruct (bstr_eqb name n_ij); [discriminate|]. destruct (is_ident name); [reflexivity|discriminate]. }
+    pose proof (ginv_after _ _ _ _ _ _ _ _ Hbo E1 G) as G1. pose proof (proj1 (sgen_mono_all mode) _ _ _ _ _ _ _ E1) as Hn1.
     destruct (IHr buf sc1 n1 env1 je1 (old ++ a) c jr n' G1 Ec I1 E2) as (je2 & X2 & Hb2 & F2).
     exists je2. rewrite jb_exec_cons, X1. cbn [bind]. split; [exact X2|]. split; [rewrite app_assoc; exact Hb2|eapply frame_trans; eauto].
   - (* ENone *) intros buf sc n env je old text jl n' G E I Eg. rewrite eout_none in E. rewrite egen_none in Eg. inversion E; subst. inversion Eg; subst.
@@ -498,773 +1222,3 @@ Proof.
       exists je'. split; [exact X|]. split; [exact Hb'|]. eapply frame_trans; [exact Hn1|apply frame_refl|exact F].
 Qed.
 End JsStmts.
-
-(* ================================================================== *)
-(* the Go side: the walker of Model/Interp.v *)
-
-Lemma snode_raw t : snode (SRaw t) = NRawText 0 t. Proof. reflexivity. Qed.
-Lemma snode_print e ds : snode (SPrint e ds) = NPrint 0 (cnode e) (map pdir_node ds). Proof. reflexivity. Qed.
-Lemma snode_let name e : snode (SLet name e) = NLetValue 0 name (cnode e). Proof. reflexivity. Qed.
-Lemma snode_if c th rest : snode (SIf c th rest) = NIf 0 (NIfCond 0 (Some (cnode c)) (NList 0 (bnodes th)) :: enodes rest). Proof. reflexivity. Qed.
-Lemma snode_switch v cs : snode (SSwitch v cs) = NSwitch 0 (cnode v) (knodes cs). Proof. reflexivity. Qed.
-Lemma bnodes_cons s r : bnodes (BCons s r) = snode s :: bnodes r. Proof. reflexivity. Qed.
-Lemma enodes_else b : enodes (EElse b) = [NIfCond 0 None (NList 0 (bnodes b))]. Proof. reflexivity. Qed.
-Lemma enodes_elif c th rest : enodes (EElif c th rest) = NIfCond 0 (Some (cnode c)) (NList 0 (bnodes th)) :: enodes rest. Proof. reflexivity. Qed.
-Lemma knodes_default b : knodes (KDefault b) = [NSwitchCase 0 [] (NList 0 (bnodes b))]. Proof. reflexivity. Qed.
-Lemma knodes_case v vs b rest : knodes (KCase v vs b rest) = NSwitchCase 0 (cnode v :: map cnode vs) (NList 0 (bnodes b)) :: knodes rest. Proof. reflexivity. Qed.
-
-Lemma sdepth_if c th rest : sdepth (SIf c th rest) = S (S (Nat.max (cdepth c) (Nat.max (bdepth th) (edepth rest)))). Proof. reflexivity. Qed.
-Lemma sdepth_switch v cs : sdepth (SSwitch v cs) = S (S (Nat.max (cdepth v) (kdepth cs))). Proof. reflexivity. Qed.
-Lemma bdepth_cons s r : bdepth (BCons s r) = Nat.max (S (sdepth s)) (bdepth r). Proof. reflexivity. Qed.
-Lemma edepth_else b : edepth (EElse b) = bdepth b. Proof. reflexivity. Qed.
-Lemma edepth_elif c th rest : edepth (EElif c th rest) = Nat.max (cdepth c) (Nat.max (bdepth th) (edepth rest)). Proof. reflexivity. Qed.
-Lemma kdepth_default b : kdepth (KDefault b) = bdepth b. Proof. reflexivity. Qed.
-Lemma kdepth_case v vs b rest : kdepth (KCase v vs b rest) = Nat.max (Nat.max (cdepth v) (cdepths vs)) (Nat.max (bdepth b) (kdepth rest)). Proof. reflexivity. Qed.
-Lemma cdepths_le x l : In x l -> (cdepth x <= cdepths l)%nat.
-Proof. induction l as [|y r IH]; intro H; [contradiction|]. cbn [cdepths fold_right]. fold (cdepths r). destruct H as [->|H]; [lia|]. specialize (IH H). lia. Qed.
-
-Lemma assoc_s_map_set m k q (v : value) : assoc_s q (map_set m k v) = if bstr_eqb q k then Some v else assoc_s q m.
-Proof.
-  induction m as [|[k1 v1] r IH]; cbn [map_set]; unfold assoc_s; fold (@assoc_s value).
-  - reflexivity.
-  - destruct (bstr_eqb k k1) eqn:E1.
-    + apply bstr_eqb_true in E1. subst k1. unfold assoc_s; fold (@assoc_s value). destruct (bstr_eqb q k); reflexivity.
-    + destruct (bstr_ltb k k1); unfold assoc_s; fold (@assoc_s value).
-      * destruct (bstr_eqb q k); reflexivity.
-      * rewrite IH. destruct (bstr_eqb q k1) eqn:E2; [|reflexivity].
-        destruct (bstr_eqb q k) eqn:E3; [|reflexivity]. apply bstr_eqb_true in E2, E3. subst. rewrite bstr_eqb_refl' in E1. discriminate.
-Qed.
-Lemma sc_lookup_set s k v x : s <> [] -> sc_lookup (sc_set s k v) x = if bstr_eqb x k then Some v else sc_lookup s x.
-Proof.
-  destruct s as [|f r]; [congruence|]. intros _. cbn [sc_set sc_lookup f_vars]. rewrite assoc_s_map_set. destruct (bstr_eqb x k); reflexivity.
-Qed.
-
-Lemma concat_b_app ws1 ws2 : concat_b (ws1 ++ ws2) = concat_b ws1 ++ concat_b ws2.
-Proof. induction ws1 as [|w r IH]; [reflexivity|]. cbn. rewrite IH, app_assoc. reflexivity. Qed.
-
-Lemma snode_letc name body : snode (SLetC name body) = NLetContent 0 name (NList 0 (bnodes body)). Proof. reflexivity. Qed.
-Lemma sdepth_letc name body : sdepth (SLetC name body) = S (S (bdepth body)). Proof. reflexivity. Qed.
-
-Definition envok (env : bstr -> option value) : Prop := forall k x, env k = Some x -> core_value x = true.
-Definition agrees (st : mstate) (env : bstr -> option value) : Prop := forall k, sc_lookup (ctx st) k = env k.
-Lemma agrees_pres st st' env : pres st st' -> agrees st env -> agrees st' env.
-Proof. intros P H k. rewrite (pres_ctx _ _ P). apply H. Qed.
-
-(* what a statement does to the renderer's state: it writes text to the current writer (wrote, of
-   Proofs/MiniJSStmt.v: the innermost capture buffer, or the output); the mode stays; the scope stack
-   keeps its frames below the innermost one, and looking a variable up gives the environment after the statement *)
-Definition sres (m : M value) (st : mstate) (text : bstr) (env' : bstr -> option value) : Prop :=
-  exists st' ws rv, m st = (Ok rv, st') /\ wrote st st' ws /\ concat_b ws = text /\ mode st' = mode st
-                    /\ ctx st' <> [] /\ tl (ctx st') = tl (ctx st) /\ agrees st' env'.
-(* a command that restores the scope; [st0] is the state the writer and the scope are compared with *)
-Definition bres0 {A} (st0 : mstate) (m : M A) (st : mstate) (text : bstr) : Prop :=
-  exists st' ws rv, m st = (Ok rv, st') /\ wrote st0 st' ws /\ concat_b ws = text /\ mode st' = mode st0 /\ ctx st' = ctx st0.
-Notation bres m st text := (bres0 st m st text).
-
-Lemma bres0_pres {A} st0 (m : M A) st text : pres st0 st -> bres m st text -> bres0 st0 m st text.
-Proof.
-  intros P (st' & ws & rv & E & W & T & M' & X). pose proof P as (C & Mo & _). exists st', ws, rv.
-  split; [exact E|]. split; [exact (wrote_l _ _ _ _ (pres_wsame _ _ P) W)|]. repeat split; congruence.
-Qed.
-Lemma bres0_ret {A} st0 (m : M A) st text : bres0 st0 m st text -> bres0 st0 (_ <-- m ;;; ret VUndef) st text.
-Proof. intros (st' & ws & rv & E & R). exists st', ws, VUndef. unfold mbind. rewrite E. split; [reflexivity|exact R]. Qed.
-Lemma bres_sres m st text env : bres m st text -> ctx st <> [] -> agrees st env -> sres m st text env.
-Proof.
-  intros (st' & ws & rv & E & W & T & M' & X) Hn Ha. exists st', ws, rv.
-  split; [exact E|]. split; [exact W|]. split; [exact T|]. split; [exact M'|]. split; [congruence|]. split; [congruence|].
-  intro k. rewrite X. apply Ha.
-Qed.
-
-Section GoStmts.
-Variable cf : cfg.
-Hypothesis Hob : c_oblig cf = [].
-Hypothesis ij_core : forall x, c_ij cf = Some x -> core_value x = true.
-
-Lemma walk_unfold f n st : walk cf (S f) n st = walk_node cf (walk cf f) n (set_cur st (pos_of n)).
-Proof. reflexivity. Qed.
-
-Lemma go_eval f e st v env : agrees st env -> envok env -> (cdepth e < f)%nat -> ceval (c_ij cf) env e = Some v ->
-  mok (eval (walk cf f) (cnode e)) st v.
-Proof.
-  intros Ha Hc Hf E. apply mok_eval. apply (interp_ceval cf st); auto.
-  - intros k x Hk. rewrite Ha in Hk. eapply Hc; eauto.
-  - rewrite (ceval_ext _ _ env Ha). exact E.
-Qed.
-
-Lemma go_case_hit F env sv vs : envok env -> (forall x, In x vs -> (cdepth x < F)%nat) -> forall st h, agrees st env ->
-  khit (c_ij cf) env sv vs = Some h -> exists st', case_hit (walk cf F) sv (map cnode vs) st = (Ok h, st') /\ pres st st'.
-Proof.
-  intros Hc. induction vs as [|x r IH]; intros Hd st h Ha E; cbn [khit map case_hit] in *.
-  - inversion E; subst. exists st. split; [reflexivity|apply pres_refl].
-  - destruct (ceval (c_ij cf) env x) as [cv|] eqn:Ex; [|discriminate]. destruct (prim_value cv); [|discriminate].
-    destruct (go_eval F x st cv env Ha Hc (Hd x (or_introl eq_refl)) Ex) as (st1 & E1 & P1).
-    unfold mbind at 1. rewrite E1. destruct (equals sv cv).
-    + inversion E; subst. exists st1. split; [reflexivity|exact P1].
-    + destruct (IH (fun y Hy => Hd y (or_intror Hy)) st1 h (agrees_pres _ _ _ P1 Ha) E) as (st2 & E2 & P2).
-      exists st2. split; [exact E2|eapply pres_trans; eauto].
-Qed.
-
-Definition GP_s (s : cstmt) : Prop := forall f st text env env',
-  (sdepth s < f)%nat -> wok st -> ctx st <> [] -> agrees st env -> envok env ->
-  sout (c_ij cf) (mode st) go_print_text env s = Some (text, env') -> sres (walk cf f (snode s)) st text env'.
-Definition GP_b (b : cblk) : Prop := forall f st text env,
-  (bdepth b <= f)%nat -> wok st -> ctx st <> [] -> agrees st env -> envok env ->
-  bout (c_ij cf) (mode st) go_print_text env b = Some text ->
-  exists st' ws, walk_list (walk cf f) (bnodes b) st = (Ok tt, st') /\ wrote st st' ws /\ concat_b ws = text
-                 /\ mode st' = mode st /\ tl (ctx st') = tl (ctx st).
-Definition GP_e (e : celse) : Prop := forall F st text env,
-  (edepth e < F)%nat -> wok st -> agrees st env -> envok env ->
-  eout (c_ij cf) (mode st) go_print_text env e = Some text -> bres (if_conds (walk cf F) (enodes e)) st text.
-Definition GP_k (k : ccases) : Prop := forall F st text env sv,
-  (kdepth k < F)%nat -> wok st -> agrees st env -> envok env ->
-  kout (c_ij cf) (mode st) go_print_text env sv k = Some text -> bres (switch_cases (walk cf F) sv (knodes k)) st text.
-
-Lemma envok_set env k v : envok env -> core_value v = true -> envok (env_set env k v).
-Proof. intros H Hv q x. unfold env_set. destruct (bstr_eqb q k); [intro E; inversion E; subst; exact Hv|apply H]. Qed.
-
-Lemma go_envok st mode env s text env' : agrees st env -> envok env ->
-  sout (c_ij cf) mode go_print_text env s = Some (text, env') -> envok env'.
-Proof.
-  intros Ha Hc. destruct s.
-  - rewrite sout_raw. intro E; inversion E; subst; exact Hc.
-  - rewrite sout_print. destruct (ceval (c_ij cf) env e); [|discriminate]. destruct (scalar_string v); [|discriminate]. destruct (cleanb b); [|discriminate].
-    intro E; inversion E; subst; exact Hc.
-  - rewrite sout_let. destruct (bstr_eqb name n_ij); [discriminate|]. destruct (ceval (c_ij cf) env e) as [v|] eqn:Ev; [|discriminate].
-    intro E; inversion E; subst. apply envok_set; [exact Hc|].
-    apply (ceval_core cf st) with (e := e); auto.
-    + intros k x Hk. rewrite Ha in Hk. eapply Hc; eauto.
-    + rewrite (ceval_ext _ _ env Ha). exact Ev.
-  - rewrite sout_letc. destruct (bstr_eqb name n_ij); [discriminate|]. destruct (bout (c_ij cf) mode go_print_text env body); [|discriminate].
-    intro E; inversion E; subst. apply envok_set; [exact Hc|reflexivity].
-  - rewrite sout_if. destruct (ceval (c_ij cf) env c); [|discriminate]. destruct (if truthy v then _ else _); [|discriminate]. intro E; inversion E; subst; exact Hc.
-  - rewrite sout_switch. destruct (ceval (c_ij cf) env v); [|discriminate]. destruct (prim_value v0); [|discriminate].
-    destruct (kout (c_ij cf) mode go_print_text env v0 cs); [|discriminate]. intro E; inversion E; subst; exact Hc.
-Qed.
-
-(* a block: NList pushes an (empty) frame, walks its statements, pops *)
-Lemma go_block b F st text env : GP_b b -> (bdepth b < F)%nat -> wok st -> agrees st env -> envok env ->
-  bout (c_ij cf) (mode st) go_print_text env b = Some text -> bres (walk cf F (NList 0 (bnodes b))) st text.
-Proof.
-  intros Hb Hd Hg Ha Hc E. destruct F as [|f]; [lia|]. unfold bres0. rewrite walk_unfold. cbn [walk_node].
-  match goal with |- context [set_cur st ?p] => set (st1 := set_cur st p) end. unfold mbind at 1. unfold m_push. cbn [modify].
-  set (st2 := set_ctx st1 (sc_push (ctx st1))).
-  assert (S2 : wsame st st2) by (subst st2 st1; repeat split).
-  assert (A2 : agrees st2 env) by (intro k; subst st2 st1; cbn; apply Ha).
-  assert (M2 : mode st2 = mode st) by reflexivity.
-  assert (N2 : ctx st2 <> []) by (subst st2; cbn; discriminate).
-  destruct (Hb f st2 text env ltac:(lia) (wsame_wok _ _ S2 Hg) N2 A2 Hc) as (st3 & ws & E3 & W3 & C3 & M3 & X3). { rewrite M2. exact E. }
-  unfold mbind at 1. rewrite E3. unfold mbind at 1. unfold m_pop. cbn [modify ret].
-  exists (set_ctx st3 (sc_pop (ctx st3))), ws, VUndef. split; [reflexivity|].
-  split; [apply (wrote_r _ st3); [exact (wrote_l _ _ _ _ S2 W3)|repeat split]|].
-  split; [exact C3|]. cbn [set_ctx ctx mode]. split; [congruence|]. unfold sc_pop. rewrite X3. reflexivity.
-Qed.
-
-(* renderBlock: a fresh capture buffer, the block, the buffer popped and returned as a string; any writer will do *)
-Lemma go_render_block b F st text env : GP_b b -> (bdepth b < F)%nat -> agrees st env -> envok env ->
-  bout (c_ij cf) (mode st) go_print_text env b = Some text ->
-  exists st', render_block (walk cf F) (NList 0 (bnodes b)) st = (Ok text, st') /\ wsame st st' /\ ctx st' = ctx st /\ mode st' = mode st.
-Proof.
-  intros Hb Hd Ha Hc E. unfold render_block. unfold mbind at 1. cbn [modify].
-  remember (set_bufs st ([] :: bufs st)) as st2 eqn:Hst2.
-  assert (B2 : bufs st2 = [] :: bufs st) by (subst st2; reflexivity).
-  assert (R2 : ctx st2 = ctx st /\ mode st2 = mode st /\ out st2 = out st /\ calls_left st2 = calls_left st /\ bytes_left st2 = bytes_left st)
-    by (subst st2; repeat split).
-  destruct R2 as (C2 & M2 & O2 & L2 & Y2). clear Hst2.
-  assert (W2 : wok st2) by (unfold wok; rewrite B2; exact I).
-  assert (A2 : agrees st2 env) by (intro k; rewrite C2; apply Ha).
-  destruct (go_block b F st2 text env Hb Hd W2 A2 Hc) as (st3 & ws & rv & E3 & W3 & T3 & M3 & X3). { rewrite M2. exact E. }
-  unfold mbind at 1. rewrite E3. unfold mbind at 1. cbn [get].
-  destruct W3 as (L3 & Y3 & W3). rewrite B2 in W3. destruct W3 as [B3 O3].
-  rewrite B3. unfold mbind at 1. cbn [modify ret].
-  eexists. split; [rewrite app_nil_r, rev_involutive, T3; reflexivity|].
-  unfold wsame. cbn [out bufs calls_left bytes_left ctx mode set_bufs]. repeat split; congruence.
-Qed.
-
-(* binding a name in the innermost frame (let) *)
-Lemma go_set st name v env : ctx st <> [] -> agrees st env ->
-  exists st', m_set name v st = (Ok tt, st') /\ wsame st st' /\ mode st' = mode st
-              /\ ctx st' <> [] /\ tl (ctx st') = tl (ctx st) /\ agrees st' (env_set env name v).
-Proof.
-  intros Hn Ha. unfold m_set. destruct (ctx st) as [|fr rs] eqn:Ec; [congruence|].
-  match goal with |- context [set_ctx ?a ?b] => set (st3 := set_ctx a b) end.
-  exists st3. split; [reflexivity|].
-  assert (H3 : out st3 = out st /\ mode st3 = mode st /\ bufs st3 = bufs st /\ calls_left st3 = calls_left st /\ bytes_left st3 = bytes_left st
-               /\ ctx st3 = sc_set (fr :: rs) name v).
-  { subst st3. destruct (sc_top_origin (fr :: rs)); cbn; auto 10. }
-  destruct H3 as (O3 & M3 & B3 & L3 & Y3 & C3).
-  split; [repeat split; assumption|]. split; [exact M3|]. split; [rewrite C3; cbn [sc_set]; discriminate|].
-  split; [rewrite C3; reflexivity|].
-  intro k. rewrite C3, sc_lookup_set by discriminate. unfold env_set. rewrite <- Ec. rewrite Ha. reflexivity.
-Qed.
-
-Theorem interp_all : (forall s, GP_s s) /\ (forall b, GP_b b) /\ (forall e, GP_e e) /\ (forall k, GP_k k).
-Proof.
-  apply cstmt_mutind.
-  - (* raw text *) intros t f st text env env' Hf Hg Hn Ha Hc E. rewrite sout_raw in E. inversion E; subst.
-    apply bres_sres; auto. destruct f as [|f]; [cbn in Hf; lia|]. unfold bres0. rewrite walk_unfold, snode_raw. cbn [walk_node].
-    match goal with |- context [set_cur st ?p] => set (st1 := set_cur st p) end.
-    assert (P1 : pres st st1) by apply pres_set_cur.
-    destruct (write_wok text st1 (wsame_wok _ _ (pres_wsame _ _ P1) Hg)) as (st2 & E2 & W2 & C2 & M2).
-    unfold mbind at 1. rewrite E2. exists st2, [text], VUndef. split; [reflexivity|].
-    split; [exact (wrote_l _ _ _ _ (pres_wsame _ _ P1) W2)|]. split; [cbn; apply app_nil_r|]. split; [exact M2|exact C2].
-  - (* print *) intros e ds f st text env env' Hf Hg Hn Ha Hc E. rewrite sout_print in E.
-    destruct (ceval (c_ij cf) env e) as [v|] eqn:Ev; [|discriminate]. destruct (scalar_string v) as [str|] eqn:Es; [|discriminate].
-    destruct (cleanb str); [|discriminate]. inversion E; subst. clear E.
-    apply bres_sres; auto. rewrite snode_print.
-    destruct (scalar_string_ok v str Es) as (Hp & Hvs & _).
-    assert (Ev' : ceval (c_ij cf) (sc_lookup (ctx st)) e = Some v) by (rewrite (ceval_ext _ _ env' Ha); exact Ev).
-    destruct (interp_print_dirs_w cf e ds f st v str Hob Hg) as (st' & ws & E1 & W1 & C1 & X1 & M1); auto.
-    + intros k x Hk. rewrite Ha in Hk. eapply Hc; eauto.
-    + cbn [sdepth] in Hf. lia.
-    + destruct v; try discriminate; discriminate.
-    + exists st', ws, VUndef. split; [exact E1|]. split; [exact W1|]. split; [exact C1|]. split; [exact M1|exact X1].
-  - (* let *) intros name e f st text env env' Hf Hg Hn Ha Hc E. rewrite sout_let in E.
-    destruct (bstr_eqb name n_ij); [discriminate|]. destruct (ceval (c_ij cf) env e) as [v|] eqn:Ev; [|discriminate]. inversion E; subst. clear E.
-    cbn [sdepth] in Hf. destruct f as [|f]; [lia|]. unfold sres. rewrite walk_unfold, snode_let. cbn [walk_node].
-    match goal with |- context [set_cur st ?p] => set (st1 := set_cur st p) end.
-    assert (P1 : pres st st1) by apply pres_set_cur.
-    destruct (go_eval f e st1 v env (agrees_pres _ _ _ P1 Ha) Hc ltac:(lia) Ev) as (st2 & E2 & P2).
-    pose proof (pres_trans _ _ _ P1 P2) as P. pose proof P as (C & Mo & _).
-    unfold mbind at 1. rewrite E2.
-    destruct (go_set st2 name v env ltac:(congruence) (agrees_pres _ _ _ P Ha)) as (st3 & E3 & S3 & M3 & N3 & T3 & A3).
-    unfold mbind at 1. rewrite E3. cbn [ret]. exists st3, [], VUndef. split; [reflexivity|].
-    split; [apply wsame_wrote; exact (wsame_trans _ _ _ (pres_wsame _ _ P) S3)|]. split; [reflexivity|]. split; [congruence|].
-    split; [exact N3|]. split; [congruence|exact A3].
-  - (* let, content form *) intros name body IHb f st text env env' Hf Hg Hn Ha Hc E. rewrite sout_letc in E.
-    destruct (bstr_eqb name n_ij); [discriminate|].
-    destruct (bout (c_ij cf) (mode st) go_print_text env body) as [t|] eqn:Et; [|discriminate]. inversion E; subst. clear E.
-    rewrite sdepth_letc in Hf. destruct f as [|F]; [lia|]. unfold sres. rewrite walk_unfold, snode_letc. cbn [walk_node].
-    match goal with |- context [set_cur st ?p] => set (st1 := set_cur st p) end.
-    assert (P1 : pres st st1) by apply pres_set_cur. pose proof P1 as (C1 & Mo1 & _).
-    destruct (go_render_block body F st1 t env IHb ltac:(lia) (agrees_pres _ _ _ P1 Ha) Hc) as (st4 & E4 & S4 & C4 & M4).
-    { rewrite Mo1. exact Et. }
-    unfold mbind at 1. rewrite E4.
-    destruct (go_set st4 name (VStr t) env ltac:(congruence) ltac:(intro k; rewrite C4, C1; apply Ha)) as (st5 & E5 & S5 & M5 & N5 & T5 & A5).
-    unfold mbind at 1. rewrite E5. cbn [ret]. exists st5, [], VUndef. split; [reflexivity|].
-    split; [apply wsame_wrote; exact (wsame_trans _ _ _ (wsame_trans _ _ _ (pres_wsame _ _ P1) S4) S5)|]. split; [reflexivity|].
-    split; [congruence|]. split; [exact N5|]. split; [congruence|exact A5].
-  - (* if *) intros c th IHt rest IHr f st text env env' Hf Hg Hn Ha Hc E. rewrite sout_if in E.
-    destruct (ceval (c_ij cf) env c) as [v|] eqn:Ev; [|discriminate].
-    destruct (if truthy v then bout (c_ij cf) (mode st) go_print_text env th else eout (c_ij cf) (mode st) go_print_text env rest) as [t|] eqn:Et; [|discriminate].
-    inversion E; subst. clear E. apply bres_sres; auto.
-    rewrite sdepth_if in Hf. destruct f as [|F]; [lia|]. unfold bres0. rewrite walk_unfold, snode_if. cbn [walk_node if_conds].
-    match goal with |- context [set_cur st ?p] => set (st1 := set_cur st p) end.
-    assert (P1 : pres st st1) by apply pres_set_cur.
-    destruct (go_eval F c st1 v env' (agrees_pres _ _ _ P1 Ha) Hc ltac:(lia) Ev) as (st2 & E2 & P2).
-    pose proof (pres_trans _ _ _ P1 P2) as P. unfold mbind at 1. rewrite E2.
-    assert (Mo : mode st2 = mode st) by apply P.
-    pose proof (wsame_wok _ _ (pres_wsame _ _ P) Hg) as Hg2.
-    destruct (truthy v).
-    + apply (bres0_pres st _ st2 text P). apply bres0_ret. apply (go_block th F st2 text env'); auto.
-      * lia. * eapply agrees_pres; eauto. * rewrite Mo. exact Et.
-    + apply (bres0_pres st _ st2 text P). apply (IHr F st2 text env'); auto.
-      * lia. * eapply agrees_pres; eauto. * rewrite Mo. exact Et.
-  - (* switch *) intros v cs IHk f st text env env' Hf Hg Hn Ha Hc E. rewrite sout_switch in E.
-    destruct (ceval (c_ij cf) env v) as [sv|] eqn:Ev; [|discriminate]. destruct (prim_value sv); [|discriminate].
-    destruct (kout (c_ij cf) (mode st) go_print_text env sv cs) as [t|] eqn:Et; [|discriminate]. inversion E; subst. clear E.
-    apply bres_sres; auto.
-    rewrite sdepth_switch in Hf. destruct f as [|F]; [lia|]. unfold bres0. rewrite walk_unfold, snode_switch. cbn [walk_node].
-    match goal with |- context [set_cur st ?p] => set (st1 := set_cur st p) end.
-    assert (P1 : pres st st1) by apply pres_set_cur.
-    destruct (go_eval F v st1 sv env' (agrees_pres _ _ _ P1 Ha) Hc ltac:(lia) Ev) as (st2 & E2 & P2).
-    pose proof (pres_trans _ _ _ P1 P2) as P. unfold mbind at 1. rewrite E2.
-    assert (Mo : mode st2 = mode st) by apply P.
-    pose proof (wsame_wok _ _ (pres_wsame _ _ P) Hg) as Hg2.
-    apply (bres0_pres st _ st2 text P). apply (IHk F st2 text env' sv); auto.
-    * lia. * eapply agrees_pres; eauto. * rewrite Mo. exact Et.
-  - (* BNil *) intros f st text env Hf Hg Hn Ha Hc E. rewrite bout_nil in E. inversion E; subst. exists st, [].
-    split; [reflexivity|]. split; [apply wsame_wrote, wsame_refl|auto].
-  - (* BCons *) intros s IHs r IHr f st text env Hf Hg Hn Ha Hc E. rewrite bout_cons in E. rewrite bdepth_cons in Hf.
-    destruct (sout (c_ij cf) (mode st) go_print_text env s) as [[a env1]|] eqn:Ea; [|discriminate].
-    destruct (bout (c_ij cf) (mode st) go_print_text env1 r) as [c0|] eqn:Er; [|discriminate]. inversion E; subst. clear E.
-    destruct (IHs f st a env env1 ltac:(lia) Hg Hn Ha Hc Ea) as (st1 & ws1 & rv & E1 & W1 & C1 & M1 & N1 & T1 & A1).
-    rewrite bnodes_cons. cbn [walk_list]. unfold mbind at 1. rewrite E1.
-    destruct (IHr f st1 c0 env1 ltac:(lia) (wrote_wok _ _ _ W1 Hg) N1 A1 (go_envok st _ env s a env1 Ha Hc Ea)) as (st2 & ws2 & E2 & W2 & C2 & M2 & T2).
-    { rewrite M1. exact Er. }
-    exists st2, (ws1 ++ ws2). split; [exact E2|]. split; [exact (wrote_trans _ _ _ _ _ W1 W2)|].
-    split; [rewrite concat_b_app; congruence|]. split; congruence.
-  - (* ENone *) intros F st text env Hf Hg Ha Hc E. rewrite eout_none in E. inversion E; subst. exists st, [], VUndef.
-    split; [reflexivity|]. split; [apply wsame_wrote, wsame_refl|auto].
-  - (* EElse *) intros b IHb F st text env Hf Hg Ha Hc E. rewrite eout_else in E. rewrite edepth_else in Hf.
-    rewrite enodes_else. cbn [if_conds]. apply bres0_ret. apply (go_block b F st text env); auto.
-  - (* EElif *) intros c th IHt rest IHr F st text env Hf Hg Ha Hc E. rewrite eout_elif in E. rewrite edepth_elif in Hf.
-    destruct (ceval (c_ij cf) env c) as [v|] eqn:Ev; [|discriminate].
-    rewrite enodes_elif. cbn [if_conds].
-    destruct (go_eval F c st v env Ha Hc ltac:(lia) Ev) as (st2 & E2 & P). unfold bres0. unfold mbind at 1. rewrite E2.
-    assert (Mo : mode st2 = mode st) by apply P.
-    pose proof (wsame_wok _ _ (pres_wsame _ _ P) Hg) as Hg2.
-    destruct (truthy v).
-    + apply (bres0_pres st _ st2 text P). apply bres0_ret. apply (go_block th F st2 text env); auto.
-      * lia. * eapply agrees_pres; eauto. * rewrite Mo. exact E.
-    + apply (bres0_pres st _ st2 text P). apply (IHr F st2 text env); auto.
-      * lia. * eapply agrees_pres; eauto. * rewrite Mo. exact E.
-  - (* KNone *) intros F st text env sv Hf Hg Ha Hc E. rewrite kout_none in E. inversion E; subst. exists st, [], VUndef.
-    split; [reflexivity|]. split; [apply wsame_wrote, wsame_refl|auto].
-  - (* KDefault *) intros b IHb F st text env sv Hf Hg Ha Hc E. rewrite kout_default in E. rewrite kdepth_default in Hf.
-    rewrite knodes_default. cbn [switch_cases case_hit]. unfold mbind at 1. cbn [ret orb]. apply bres0_ret. apply (go_block b F st text env); auto.
-  - (* KCase *) intros v vs b IHb rest IHr F st text env sv Hf Hg Ha Hc E. rewrite kout_case in E. rewrite kdepth_case in Hf.
-    destruct (khit (c_ij cf) env sv (v :: vs)) as [h|] eqn:Eh; [|discriminate].
-    rewrite knodes_case. cbn [switch_cases].
-    change (cnode v :: map cnode vs) with (map cnode (v :: vs)).
-    destruct (go_case_hit F env sv (v :: vs) Hc) with (st := st) (h := h) as (st2 & E2 & P); auto.
-    { intros x [<-|Hx]; [lia|]. pose proof (cdepths_le x vs Hx). lia. }
-    unfold bres0. unfold mbind at 1. rewrite E2. assert (Mo : mode st2 = mode st) by apply P.
-    pose proof (wsame_wok _ _ (pres_wsame _ _ P) Hg) as Hg2.
-    destruct h; cbn [orb map].
-    + apply (bres0_pres st _ st2 text P). apply bres0_ret. apply (go_block b F st2 text env); auto.
-      * lia. * eapply agrees_pres; eauto. * rewrite Mo. exact E.
-    + apply (bres0_pres st _ st2 text P). apply (IHr F st2 text env sv); auto.
-      * lia. * eapply agrees_pres; eauto. * rewrite Mo. exact E.
-Qed.
-End GoStmts.
-
-(* ================================================================== *)
-(* the generator: the chunks of statements *)
-
-Lemma sprint_var ind g e : sprint ind (JSVar g e) = sp_ind ind ++ ([CText t_var; CName g; CText t_eq] ++ jprint e ++ [CText t_semi]) ++ [CText t_nl].
-Proof. reflexivity. Qed.
-Lemma sprint_varblock ind g body : sprint ind (JSVarBlock g body) = sp_ind ind ++ [CText t_var; CName g; CText t_eq_empty] ++ [CText t_nl] ++ bprint ind body.
-Proof. reflexivity. Qed.
-Lemma sprint_if ind c th rest : sprint ind (JSIf c th rest)
-  = sp_ind ind ++ [CText t_if_open] ++ jprint c ++ [CText t_op_mid1; CText t_brace_nl] ++ bprint (S ind) th
-    ++ sp_ind ind ++ [CText t_rbrace] ++ lprint ind rest ++ [CText t_nl].
-Proof. reflexivity. Qed.
-Lemma sprint_switch ind v cs : sprint ind (JSSwitch v cs)
-  = sp_ind ind ++ [CText t_switch_open] ++ jprint v ++ [CText t_for_close; CText t_nl] ++ kprint (S ind) cs
-    ++ sp_ind ind ++ [CText t_rbrace; CText t_nl].
-Proof. reflexivity. Qed.
-Lemma bprint_cons ind s r : bprint ind (JBCons s r) = sprint ind s ++ bprint ind r. Proof. reflexivity. Qed.
-Lemma lprint_else ind b : lprint ind (JLElse b) = [CText t_else; CText t_brace_nl] ++ bprint (S ind) b ++ sp_ind ind ++ [CText t_rbrace].
-Proof. reflexivity. Qed.
-Lemma lprint_elif ind c th rest : lprint ind (JLElif c th rest)
-  = [CText t_else; CText t_if_open] ++ jprint c ++ [CText t_op_mid1; CText t_brace_nl] ++ bprint (S ind) th
-    ++ sp_ind ind ++ [CText t_rbrace] ++ lprint ind rest.
-Proof. reflexivity. Qed.
-Lemma kprint_default ind b : kprint ind (JKDefault b)
-  = sp_ind ind ++ [CText t_default; CText t_nl] ++ bprint (S ind) b ++ sp_ind (S ind) ++ [CText t_break; CText t_nl].
-Proof. reflexivity. Qed.
-Lemma kprint_case ind v vs b rest : kprint ind (JKCase v vs b rest)
-  = jk_values ind (v :: vs) ++ bprint (S ind) b ++ sp_ind (S ind) ++ [CText t_break; CText t_nl] ++ kprint ind rest.
-Proof. reflexivity. Qed.
-
-Section StmtChunks.
-Variable o : jopts.
-
-(* the part of the generator's state a statement depends on: indentation, buffer variable, autoescape mode, scope, counter *)
-Definition shape (st : jstate) (i : nat) (bf : bstr) (a : N) (sc : list (list (bstr * bstr))) (n : N) : Prop :=
-  j_indent st = i /\ j_buf st = bf /\ j_auto st = a /\ j_scope st = sc /\ j_n st = n.
-Lemma shape_refl st : shape st (j_indent st) (j_buf st) (j_auto st) (j_scope st) (j_n st).
-Proof. repeat split. Qed.
-(* what walking a statement does to the generator's state: the chunks appended and the shape afterwards *)
-Definition gres (m : J unit) (st : jstate) (cs : list chunk) (i : nat) (bf : bstr) (a : N) (sc : list (list (bstr * bstr))) (n : N) : Prop :=
-  exists stf, m st = Ok (tt, stf) /\ j_out stf = rev cs ++ j_out st /\ shape stf i bf a sc n.
-
-Lemma gres_bind m f st c1 c2 i1 b1 a1 s1 n1 i2 b2 a2 s2 n2 :
-  gres m st c1 i1 b1 a1 s1 n1 ->
-  (forall x, shape x i1 b1 a1 s1 n1 -> gres (f tt) x c2 i2 b2 a2 s2 n2) ->
-  gres (jbind m f) st (c1 ++ c2) i2 b2 a2 s2 n2.
-Proof.
-  intros (x & E1 & O1 & H1) Hf. destruct (Hf x H1) as (y & E2 & O2 & R).
-  exists y. rewrite (jbind_ok _ _ _ _ _ E1). split; [exact E2|]. split; [rewrite O2, O1, rev_app_distr, app_assoc; reflexivity|exact R].
-Qed.
-Lemma gres_eq m st cs cs' i b a s n : gres m st cs i b a s n -> cs = cs' -> gres m st cs' i b a s n.
-Proof. intros H <-. exact H. Qed.
-Lemma gres_ret st i b a s n : shape st i b a s n -> gres (jret tt) st [] i b a s n.
-Proof. intro H. exists st. repeat split; apply H. Qed.
-Lemma gres_emit cs st i b a s n : shape st i b a s n -> gres (jemit cs) st cs i b a s n.
-Proof. intro H. exists (st_out st cs). rewrite jemit_out. split; [reflexivity|]. destruct st; cbn in *. split; [reflexivity|exact H]. Qed.
-Lemma gres_txt t st i b a s n : shape st i b a s n -> gres (jtxt t) st [CText t] i b a s n.
-Proof. apply gres_emit. Qed.
-Lemma gres_indent st i b a s n : shape st i b a s n -> gres jindent st (sp_ind i) i b a s n.
-Proof.
-  intro H. unfold jindent, sp_ind. exists (st_out st [CText (indent_text (j_indent st))]). split; [unfold jbind, jget; apply jtxt_out|].
-  destruct H as (<- & H). destruct st; cbn in *. split; [reflexivity|]. split; [reflexivity|exact H].
-Qed.
-Tactic Notation "gbind" ident(x) ident(H) := eapply gres_bind; [ | intros x H ].
-Lemma gres_sln cs st i b a s n : shape st i b a s n -> gres (jsln cs) st (sp_ind i ++ cs ++ [CText t_nl]) i b a s n.
-Proof.
-  intro H. unfold jsln. gbind x Hx. apply gres_indent; exact H. gbind y Hy. apply gres_emit; exact Hx. apply gres_txt; exact Hy.
-Qed.
-Lemma gres_inc st i b a s n : shape st i b a s n -> gres indent_inc st [] (S i) b a s n.
-Proof. intros (<- & H). exists (set_indent (S (j_indent st)) st). destruct st; cbn in *. repeat split; apply H. Qed.
-Lemma gres_dec st i b a s n : shape st (S i) b a s n -> gres indent_dec st [] i b a s n.
-Proof. intros (Hi & H). exists (set_indent (pred (j_indent st)) st). destruct st; cbn in *. subst. repeat split; apply H. Qed.
-Lemma gres_expr e F st i b a s n : (cdepth e < F)%nat -> shape st i b a s n -> gres (jwalk o F (cnode e)) st (jprint (cgen s e)) i b a s n.
-Proof.
-  intros Hf H. exists (st_after st (jprint (cgen (j_scope st) e))). rewrite (cgen_print o e F st Hf). split; [reflexivity|].
-  rewrite j_out_st_after. destruct H as (H1 & H2 & H3 & H4 & H5). rewrite H4. split; [reflexivity|].
-  unfold st_after, st_out. destruct st; cbn in *. repeat split; assumption.
-Qed.
-Lemma gres_walk F nd st cs i b a s k i' b' a' s' k' : soydoc_flags nd = None -> shape st i b a s k ->
-  (forall st1, shape st1 i b a s k -> gres (jwalk_node o (jwalk o F) (j_cur st) nd) st1 cs i' b' a' s' k') ->
-  gres (jwalk o (S F) nd) st cs i' b' a' s' k'.
-Proof.
-  intros Hfl Hs H. destruct (H (jset_cur None st)) as (stf & E & O & R). { destruct st; exact Hs. }
-  exists stf. rewrite jwalk_S, Hfl. split; [exact E|]. split; [exact O|exact R].
-Qed.
-
-Ltac chunks_eq := repeat rewrite <- app_assoc; cbn [app]; rewrite ?app_nil_r; reflexivity.
-
-Definition GQ_s (s : cstmt) : Prop := forall f st j sc' n' i bf a sc n,
-  (sdepth s < f)%nat -> sc <> [] -> shape st i bf a sc n -> sgen a bf sc n s = (j, (sc', n')) ->
-  gres (jwalk o f (snode s)) st (sprint i j) i bf a sc' n'.
-Definition GQ_b (b : cblk) : Prop := forall f st jb n' i bf a sc n,
-  (bdepth b <= f)%nat -> sc <> [] -> shape st i bf a sc n -> bgen a bf sc n b = (jb, n') ->
-  exists sc', tl sc' = tl sc /\ gres (jwalk_list (jwalk o f) (bnodes b)) st (bprint i jb) i bf a sc' n'.
-Definition GQ_e (e : celse) : Prop := forall F st jl n' i bf a sc n,
-  (edepth e < F)%nat -> sc <> [] -> shape st i bf a sc n -> egen a bf sc n e = (jl, n') ->
-  gres (jif_conds (jwalk o F) false (enodes e)) st (lprint i jl) i bf a sc n'.
-Definition GQ_k (k : ccases) : Prop := forall F st jk n' i bf a sc n,
-  (kdepth k < F)%nat -> sc <> [] -> shape st i bf a sc n -> kgen a bf sc n k = (jk, n') ->
-  gres (jswitch_cases (jwalk o F) (knodes k)) st (kprint i jk) i bf a sc n'.
-
-Lemma sgen_scope mode buf sc n s j sc' n' : sgen mode buf sc n s = (j, (sc', n')) -> sc <> [] -> tl sc' = tl sc /\ sc' <> [].
-Proof.
-  intros H Hn. destruct (sgen_after _ _ _ _ _ _ _ _ H) as [->|(name & -> & _)]; [auto|].
-  destruct sc as [|f r]; [congruence|]. cbn. split; [reflexivity|discriminate].
-Qed.
-
-(* a block: s.at, push a frame, the statements, pop *)
-Lemma gen_nlist b F y jb n' i bf a sc n : GQ_b b -> (bdepth b < F)%nat -> shape y i bf a sc n ->
-  bgen a bf ([] :: sc) n b = (jb, n') ->
-  gres (jwalk o F (NList 0 (bnodes b))) y (bprint i jb) i bf a sc n'.
-Proof.
-  intros Hb Hd Hy Eg. destruct F as [|f]; [lia|]. eapply gres_walk; [reflexivity|exact Hy|]. intros x1 H1. cbn [jwalk_node].
-  set (x2 := set_scope ([] :: j_scope x1) (j_n x1) x1).
-  assert (E2 : jsc_push x1 = Ok (tt, x2)) by reflexivity.
-  assert (H2 : shape x2 i bf a ([] :: sc) n /\ j_out x2 = j_out x1).
-  { subst x2. destruct H1 as (? & ? & ? & ? & ?). destruct x1; cbn in *. subst. repeat split. }
-  destruct H2 as (H2 & O2).
-  destruct (Hb f x2 jb n' i bf a ([] :: sc) n ltac:(lia) ltac:(discriminate) H2 Eg) as (sc' & Htl & (x3 & E3 & O3 & I3 & B3 & A3 & S3 & N3)).
-  unfold gres. erewrite jbind_ok; [|exact E2]. erewrite jbind_ok; [|exact E3].
-  exists (set_scope (tl (j_scope x3)) (j_n x3) x3). split; [reflexivity|].
-  split; [cbn; rewrite O3, O2; reflexivity|].
-  unfold shape. cbn [j_indent j_buf j_auto j_scope j_n set_scope]. rewrite S3, Htl. cbn [tl]. repeat split; assumption.
-Qed.
-
-(* "{" newline, the block one level deeper, "}" at the statement's level, then the rest *)
-Lemma gen_body_tail b F st jb n' rest crest i bf a sc n i2 b2 a2 s2 k2 : GQ_b b -> (bdepth b < F)%nat -> shape st i bf a sc n ->
-  bgen a bf ([] :: sc) n b = (jb, n') ->
-  (forall y, shape y i bf a sc n' -> gres rest y crest i2 b2 a2 s2 k2) ->
-  gres (jtxt t_brace_nl ;;; indent_inc ;;; jwalk o F (NList 0 (bnodes b)) ;;; indent_dec ;;; jindent ;;; jtxt t_rbrace ;;; rest) st
-       ([CText t_brace_nl] ++ bprint (S i) jb ++ sp_ind i ++ [CText t_rbrace] ++ crest) i2 b2 a2 s2 k2.
-Proof.
-  intros Hb Hd Hs Eg Hrest. eapply gres_eq.
-  - gbind x0 H0. apply gres_txt; exact Hs.
-    gbind x1 H1. apply gres_inc; exact H0.
-    gbind x2 H2. apply (gen_nlist b F x1 jb n' (S i) bf a sc n Hb Hd H1 Eg).
-    gbind x3 H3. apply gres_dec; exact H2.
-    gbind x4 H4. apply gres_indent; exact H3.
-    gbind x5 H5. apply gres_txt; exact H4.
-    apply Hrest; exact H5.
-  - chunks_eq.
-Qed.
-
-Lemma gen_case_values F vs : (forall x, In x vs -> (cdepth x < F)%nat) -> forall st i b a s n, shape st i b a s n ->
-  gres (case_values (jwalk o F) (map cnode vs)) st (jk_values i (map (cgen s) vs)) i b a s n.
-Proof.
-  induction vs as [|v r IH]; intros Hd st i b a s n Hs; cbn [map case_values jk_values].
-  - apply gres_ret; exact Hs.
-  - eapply gres_eq.
-    + gbind x1 H1. apply gres_indent; exact Hs. gbind x2 H2. apply gres_txt; exact H1.
-      gbind x3 H3. apply (gres_expr v F x2); [apply Hd; left; reflexivity|exact H2].
-      gbind x4 H4. apply gres_emit; exact H3. apply IH; [intros y Hy; apply Hd; right; exact Hy|exact H4].
-    + chunks_eq.
-Qed.
-
-(* the body of a case: the block one level deeper, then break; at that level *)
-Lemma gen_case_body b F st jb n' rest crest i bf a sc n i2 b2 a2 s2 k2 : GQ_b b -> (bdepth b < F)%nat -> shape st i bf a sc n ->
-  bgen a bf ([] :: sc) n b = (jb, n') ->
-  (forall y, shape y i bf a sc n' -> gres rest y crest i2 b2 a2 s2 k2) ->
-  gres (indent_inc ;;; jwalk o F (NList 0 (bnodes b)) ;;; jsln [CText t_break] ;;; indent_dec ;;; rest) st
-       (bprint (S i) jb ++ sp_ind (S i) ++ [CText t_break; CText t_nl] ++ crest) i2 b2 a2 s2 k2.
-Proof.
-  intros Hb Hd Hs Eg Hrest. eapply gres_eq.
-  - gbind x1 H1. apply gres_inc; exact Hs.
-    gbind x2 H2. apply (gen_nlist b F x1 jb n' (S i) bf a sc n Hb Hd H1 Eg).
-    gbind x3 H3. apply gres_sln; exact H2.
-    gbind x4 H4. apply gres_dec; exact H3.
-    apply Hrest; exact H4.
-  - chunks_eq.
-Qed.
-
-Theorem sgen_print_all : (forall s, GQ_s s) /\ (forall b, GQ_b b) /\ (forall e, GQ_e e) /\ (forall k, GQ_k k).
-Proof.
-  apply cstmt_mutind.
-  - (* raw *) intros t f st j sc' n' i bf a sc n Hf Hn Hs Eg. rewrite sgen_raw in Eg. inversion Eg; subst. clear Eg.
-    destruct f as [|f]; [cbn in Hf; lia|]. rewrite snode_raw. eapply gres_walk; [reflexivity|exact Hs|]. intros st1 H1. cbn [jwalk_node sprint].
-    unfold write_raw_text. eapply gres_eq.
-    + gbind x Hx. apply gres_indent; exact H1.
-      unfold bufname. unfold gres. erewrite jbind_ok; [|erewrite jbind_ok; [reflexivity|reflexivity]].
-      replace (j_buf x) with bf by (symmetry; apply Hx). apply gres_emit. exact Hx.
-    + reflexivity.
-  - (* print *) intros e ds f st j sc' n' i bf a sc n Hf Hn Hs Eg. rewrite sgen_print_eq in Eg. inversion Eg; subst. clear Eg.
-    rewrite snode_print. cbn [sprint]. cbn [sdepth] in Hf. destruct (cgen_print_dirs o e ds f st ltac:(lia)) as (stf & E & O & I & B & S & A & N).
-    destruct Hs as (<- & <- & <- & <- & <-). exists stf. repeat split; auto.
-  - (* let *) intros name e f st j sc' n' i bf a sc n Hf Hn Hs Eg. rewrite sgen_let in Eg. inversion Eg; subst. clear Eg.
-    cbn [sdepth] in Hf. destruct f as [|f]; [lia|]. rewrite snode_let, sprint_var.
-    eapply gres_walk; [reflexivity|exact Hs|]. intros st1 (I1 & B1 & A1 & S1 & N1). cbn [jwalk_node].
-    (* the value in a block of its own *)
-    assert (Eb : jblock (jwalk o f) (cnode e) st1 = Ok (jprint (cgen sc e), st1)).
-    { unfold jblock, jbind, jget. rewrite (cgen_print o e f _ ltac:(lia)). unfold st_after, st_out. cbn [j_out j_called jset_cur upd_out j_scope].
-      rewrite app_nil_r, rev_involutive, S1. destruct st1; reflexivity. }
-    unfold gres. erewrite jbind_ok; [|exact Eb].
-    destruct sc as [|fr rs]; [congruence|].
-    set (g := jsc_name name (n + 1)).
-    set (st2 := set_scope (aset fr name g :: rs) (n + 1) st1).
-    assert (Em : jsc_makevar name st1 = Ok (g, st2)).
-    { unfold jsc_makevar, jsc_genname, jsc_bind, jbind, jget, jmod, jret. cbn [j_n j_scope set_scope]. rewrite S1, N1. reflexivity. }
-    erewrite jbind_ok; [|exact Em].
-    assert (H2 : shape st2 i bf a (aset fr name g :: rs) (n + 1)) by (subst st2; destruct st1; cbn in *; repeat split; assumption).
-    destruct (gres_sln ([CText t_var; CName g; CText t_eq] ++ jprint (cgen (fr :: rs) e) ++ [CText t_semi]) st2 _ _ _ _ _ H2) as (stf & E & O & R).
-    exists stf. split; [exact E|]. split; [exact O|exact R].
-  - (* let, content form *) intros name body IHb f st j sc' n' i bf a sc n Hf Hn Hs Eg. rewrite sgen_letc in Eg.
-    set (g := jsc_name name (n + 1)) in *.
-    destruct (bgen a g ([] :: sc) (n + 1) body) as [jb n1] eqn:E1. inversion Eg; subst. clear Eg.
-    rewrite sdepth_letc in Hf. destruct f as [|F]; [lia|]. rewrite snode_letc, sprint_varblock.
-    eapply gres_walk; [reflexivity|exact Hs|]. intros st1 (I1 & B1 & A1 & S1 & N1). cbn [jwalk_node].
-    (* the new name (not yet bound) becomes the buffer variable *)
-    set (st2 := set_buf g (set_scope sc (n + 1) st1)).
-    assert (E2 : (st0 <~ jget ;;
-                   g0 <~ jsc_genname name ;; jmod (set_buf g0) ;;; jsln [CText t_var; CName g0; CText t_eq_empty] ;;;
-                   jwalk o F (NList 0 (bnodes body)) ;;; jsc_bind name g0 ;;; jmod (set_buf (j_buf st0))) st1
-                 = (jsln [CText t_var; CName g; CText t_eq_empty] ;;; jwalk o F (NList 0 (bnodes body)) ;;; jsc_bind name g ;;; jmod (set_buf bf)) st2).
-    { unfold jbind at 1. unfold jget. unfold jbind at 1. unfold jsc_genname, jbind, jget, jmod, jret. cbn [j_n j_scope set_scope].
-      rewrite S1, N1, B1. reflexivity. }
-    unfold gres. rewrite E2.
-    assert (H2 : shape st2 i g a sc (n + 1)) by (subst st2; destruct st1; cbn in *; repeat split; assumption).
-    assert (Hmain : gres (jsln [CText t_var; CName g; CText t_eq_empty] ;;; jwalk o F (NList 0 (bnodes body)) ;;; jsc_bind name g ;;; jmod (set_buf bf)) st2
-                         ((sp_ind i ++ [CText t_var; CName g; CText t_eq_empty] ++ [CText t_nl]) ++ (bprint i jb ++ []))
-                         i bf a (jsc_bind_pure sc name g) n').
-    { eapply gres_bind. apply gres_sln; exact H2. intros x1 Hx1.
-      eapply gres_bind. apply (gen_nlist body F x1 jb n' i g a sc (n + 1) IHb ltac:(lia) Hx1 E1). intros x2 (I2 & B2 & A2 & S2 & N2).
-      destruct sc as [|fr rs]; [congruence|].
-      exists (set_buf bf (set_scope (aset fr name g :: rs) (j_n x2) x2)). split.
-      - unfold jbind at 1. unfold jsc_bind. unfold jbind at 1. unfold jget. rewrite S2. reflexivity.
-      - split; [destruct x2; reflexivity|]. destruct x2; cbn in *. repeat split; assumption. }
-    destruct Hmain as (stf & E & O & R). exists stf. split; [exact E|]. split; [|exact R].
-    rewrite O. subst st2. destruct st1; cbn. f_equal. f_equal. rewrite app_nil_r. rewrite <- !app_assoc. reflexivity.
-  - (* if *) intros c th IHt rest IHr f st j sc' n' i bf a sc n Hf Hn Hs Eg. rewrite sgen_if in Eg.
-    destruct (bgen a bf ([] :: sc) n th) as [jt n1] eqn:E1.
-    destruct (egen a bf sc n1 rest) as [jr n2] eqn:E2. inversion Eg; subst. clear Eg.
-    rewrite sdepth_if in Hf. destruct f as [|F]; [lia|]. rewrite snode_if, sprint_if.
-    eapply gres_walk; [reflexivity|exact Hs|]. intros st1 H1. cbn [jwalk_node jif_conds].
-    eapply gres_eq.
-    + gbind x Hx. apply gres_indent; exact H1.
-      gbind y Hy; [|apply gres_txt; exact Hy].
-      gbind x0 H0. apply gres_ret; exact Hx.
-      gbind x2 H2.
-      { gbind z Hz. apply gres_txt; exact H0. gbind z2 Hz2. apply (gres_expr c F z); [lia|exact Hz]. apply gres_txt; exact Hz2. }
-      eapply (gen_body_tail th F x2 jt n1); [exact IHt|lia|exact H2|exact E1|].
-      intros y0 Hy0. apply (IHr F y0 jr n' i bf a sc' n1); [lia|exact Hn|exact Hy0|exact E2].
-    + chunks_eq.
-  - (* switch *) intros v cs IHk f st j sc' n' i bf a sc n Hf Hn Hs Eg. rewrite sgen_switch in Eg.
-    destruct (kgen a bf sc n cs) as [jc n1] eqn:E1. inversion Eg; subst. clear Eg.
-    rewrite sdepth_switch in Hf. destruct f as [|F]; [lia|]. rewrite snode_switch, sprint_switch.
-    eapply gres_walk; [reflexivity|exact Hs|]. intros st1 H1. cbn [jwalk_node].
-    eapply gres_eq.
-    + gbind x1 Hx1. apply gres_indent; exact H1. gbind x2 Hx2. apply gres_txt; exact Hx1.
-      gbind x3 Hx3. apply (gres_expr v F x2); [lia|exact Hx2]. gbind x4 Hx4. apply gres_emit; exact Hx3.
-      gbind x5 Hx5. apply gres_inc; exact Hx4.
-      gbind x6 Hx6. apply (IHk F x5 jc n' (S i) bf a sc' n); [lia|exact Hn|exact Hx5|exact E1].
-      gbind x7 Hx7. apply gres_dec; exact Hx6. apply gres_sln; exact Hx7.
-    + chunks_eq.
-  - (* BNil *) intros f st jb n' i bf a sc n Hf Hn Hs Eg. rewrite bgen_nil in Eg. inversion Eg; subst.
-    exists sc. split; [reflexivity|]. apply gres_ret; exact Hs.
-  - (* BCons *) intros s IHs r IHr f st jb n' i bf a sc n Hf Hn Hs Eg. rewrite bgen_cons in Eg. rewrite bdepth_cons in Hf.
-    destruct (sgen a bf sc n s) as [j [sc1 n1]] eqn:E1. destruct (bgen a bf sc1 n1 r) as [jr n2] eqn:E2. inversion Eg; subst. clear Eg.
-    destruct (sgen_scope _ _ _ _ _ _ _ _ E1 Hn) as [Htl1 Hn1].
-    rewrite bnodes_cons, bprint_cons. cbn [jwalk_list].
-    assert (Hex : forall x, shape x i bf a sc1 n1 -> exists sc', tl sc' = tl sc1
-                   /\ gres (jwalk_list (jwalk o f) (bnodes r)) x (bprint i jr) i bf a sc' n').
-    { intros x Hx. apply (IHr f x jr n' i bf a sc1 n1); [lia|exact Hn1|exact Hx|exact E2]. }
-    destruct (IHs f st j sc1 n1 i bf a sc n ltac:(lia) Hn Hs E1) as (x & Ex & Ox & Hx).
-    destruct (Hex x Hx) as (sc' & Htl & (y & Ey & Oy & Hy)).
-    exists sc'. split; [congruence|]. exists y. rewrite (jbind_ok _ _ _ _ _ Ex). split; [exact Ey|].
-    split; [rewrite Oy, Ox, rev_app_distr, app_assoc; reflexivity|exact Hy].
-  - (* ENone *) intros F st jl n' i bf a sc n Hf Hn Hs Eg. rewrite egen_none in Eg. inversion Eg; subst. cbn [enodes jif_conds lprint]. apply gres_ret; exact Hs.
-  - (* EElse *) intros b IHb F st jl n' i bf a sc n Hf Hn Hs Eg. rewrite egen_else in Eg. rewrite edepth_else in Hf.
-    destruct (bgen a bf ([] :: sc) n b) as [jb n1] eqn:E1. inversion Eg; subst. clear Eg.
-    rewrite enodes_else, lprint_else. cbn [jif_conds]. eapply gres_eq.
-    + gbind x1 H1. apply gres_txt; exact Hs. gbind x2 H2. apply gres_ret; exact H1.
-      eapply (gen_body_tail b F x2 jb n'); [exact IHb|lia|exact H2|exact E1|]. intros y Hy. apply gres_ret; exact Hy.
-    + chunks_eq.
-  - (* EElif *) intros c th IHt rest IHr F st jl n' i bf a sc n Hf Hn Hs Eg. rewrite egen_elif in Eg. rewrite edepth_elif in Hf.
-    destruct (bgen a bf ([] :: sc) n th) as [jt n1] eqn:E1. destruct (egen a bf sc n1 rest) as [jr n2] eqn:E2. inversion Eg; subst. clear Eg.
-    rewrite enodes_elif, lprint_elif. cbn [jif_conds]. eapply gres_eq.
-    + gbind x1 H1. apply gres_txt; exact Hs.
-      gbind x2 H2.
-      { gbind z Hz. apply gres_txt; exact H1. gbind z2 Hz2. apply (gres_expr c F z); [lia|exact Hz]. apply gres_txt; exact Hz2. }
-      eapply (gen_body_tail th F x2 jt n1); [exact IHt|lia|exact H2|exact E1|].
-      intros y Hy. apply (IHr F y jr n' i bf a sc n1); [lia|exact Hn|exact Hy|exact E2].
-    + chunks_eq.
-  - (* KNone *) intros F st jk n' i bf a sc n Hf Hn Hs Eg. rewrite kgen_none in Eg. inversion Eg; subst. cbn [knodes jswitch_cases kprint]. apply gres_ret; exact Hs.
-  - (* KDefault *) intros b IHb F st jk n' i bf a sc n Hf Hn Hs Eg. rewrite kgen_default in Eg. rewrite kdepth_default in Hf.
-    destruct (bgen a bf ([] :: sc) n b) as [jb n1] eqn:E1. inversion Eg; subst. clear Eg.
-    rewrite knodes_default, kprint_default. cbn [jswitch_cases case_values]. eapply gres_eq.
-    + gbind x1 H1. apply gres_ret; exact Hs. gbind x2 H2. apply gres_sln; exact H1.
-      eapply (gen_case_body b F x2 jb n'); [exact IHb|lia|exact H2|exact E1|]. intros y Hy. apply gres_ret; exact Hy.
-    + chunks_eq.
-  - (* KCase *) intros v vs b IHb rest IHr F st jk n' i bf a sc n Hf Hn Hs Eg. rewrite kgen_case in Eg. rewrite kdepth_case in Hf.
-    destruct (bgen a bf ([] :: sc) n b) as [jb n1] eqn:E1. destruct (kgen a bf sc n1 rest) as [jr n2] eqn:E2. inversion Eg; subst. clear Eg.
-    rewrite knodes_case, kprint_case. cbn [jswitch_cases].
-    change (cnode v :: map cnode vs) with (map cnode (v :: vs)). change (cgen sc v :: map (cgen sc) vs) with (map (cgen sc) (v :: vs)).
-    eapply gres_eq.
-    + gbind x1 H1. apply (gen_case_values F (v :: vs)); [|exact Hs].
-      { intros x [<-|Hx]; [lia|]. pose proof (cdepths_le x vs Hx). lia. }
-      gbind x2 H2. cbn [map]. apply gres_ret; exact H1.
-      eapply (gen_case_body b F x2 jb n1); [exact IHb|lia|exact H2|exact E1|].
-      intros y Hy. apply (IHr F y jr n' i bf a sc n1); [lia|exact Hn|exact Hy|exact E2].
-    + chunks_eq.
-Qed.
-End StmtChunks.
-
-(* ================================================================== *)
-(* gen_correct_partial_stmt: the three sides together, as one simulation step.
-
-   [sim] relates a state of the Go renderer's model, a JavaScript environment and a state of the generator:
-   the writer does not fail, the scope stack is not empty, every Soy variable is where the generator's scope says
-   it is (env_rel), the generated names in scope and the buffer variable carry counters up to the generator's
-   counter and the buffer variable is none of them (ginv), the buffer variable holds the text written so far,
-   and the generator's autoescape mode is the renderer's.
-
-   For a statement s of the subset (raw text, print, let, if / elseif / else, switch; nested blocks) with
-   [sout s = Some (text, env')]:
-   (Go)  the walker of Model/Interp.v writes exactly text; a variable looked up afterwards has the value env' gives;
-   (JS)  executing the MiniJS statement [sgen ..] appends exactly text to the buffer variable;
-   (Gen) walking the node in Model/JsGen.v emits exactly the chunks of that MiniJS statement;
-   and the three resulting states are related by [sim] again (with the longer buffer text), so the theorem applies
-   to the next statement. *)
-Definition sim (cf : cfg) (st : mstate) (je : jenv) (jst : jstate) (old : bstr) : Prop :=
-  wok st /\ ctx st <> []
-  /\ env_rel (j_scope jst) (c_ij cf) (sc_lookup (ctx st)) je
-  /\ ginv (j_scope jst) (j_n jst) (j_buf jst)
-  /\ assoc_s (j_buf jst) (je_vars je) = Some (JStr old)
-  /\ j_auto jst = mode st.
-
-Lemma env_rel_ext sc ij env1 env2 je : (forall k, env1 k = env2 k) -> env_rel sc ij env1 je -> env_rel sc ij env2 je.
-Proof.
-  intros H [Ev Ei Ec Eci]. constructor; auto.
-  - intros key Hk. specialize (Ev key Hk). unfold env_val in *. rewrite <- H. exact Ev.
-  - intro key. specialize (Ec key). unfold env_val in *. rewrite <- H. exact Ec.
-Qed.
-
-Definition sim_step (cf : cfg) (o : jopts) (st : mstate) (je : jenv) (jst : jstate) (s : cstmt) (fuel : nat)
-                    (text : bstr) (env' : bstr -> option value) (old : bstr) : Prop :=
-  exists st' ws rv je' jst',
-    let j := fst (sgen (mode st) (j_buf jst) (j_scope jst) (j_n jst) s) in
-    (* Go *)  walk cf fuel (snode s) st = (Ok rv, st') /\ wrote st st' ws /\ concat_b ws = text
-              /\ mode st' = mode st /\ tl (ctx st') = tl (ctx st) /\ (forall k, sc_lookup (ctx st') k = env' k)
-    (* JS *)  /\ js_exec je j = Ok je' /\ je_data je' = je_data je
-    (* Gen *) /\ jwalk o fuel (snode s) jst = Ok (tt, jst') /\ j_out jst' = rev (sprint (j_indent jst) j) ++ j_out jst
-              /\ j_indent jst' = j_indent jst /\ j_buf jst' = j_buf jst /\ tl (j_scope jst') = tl (j_scope jst)
-    /\ sim cf st' je' jst' (old ++ text).
-
-Theorem gen_correct_partial_stmt cf o st je jst s fuel text env' old :
-  c_oblig cf = [] -> (sdepth s < fuel)%nat -> sim cf st je jst old ->
-  sout (c_ij cf) (mode st) go_print_text (sc_lookup (ctx st)) s = Some (text, env') ->
-  sim_step cf o st je jst s fuel text env' old.
-Proof.
-  intros Hob Hf (Hg & Hn & ER & G & Hbuf & Hmode) E. unfold sim_step.
-  destruct (sgen (mode st) (j_buf jst) (j_scope jst) (j_n jst) s) as [j [sc' n']] eqn:Eg. cbn [fst].
-  assert (Hc : envok (sc_lookup (ctx st))).
-  { intros k x Hk. pose proof (er_core _ _ _ _ ER k) as H. unfold env_val in H. rewrite Hk in H. exact H. }
-  assert (Hij : forall x, c_ij cf = Some x -> core_value x = true) by (intros x Hx; exact (er_core_ij _ _ _ _ ER x Hx)).
-  (* Go *)
-  destruct (proj1 (interp_all cf Hob Hij) s fuel st text (sc_lookup (ctx st)) env' Hf Hg Hn (fun k => eq_refl) Hc E)
-    as (st' & ws & rv & E1 & W1 & C1 & M1 & N1 & T1 & A1).
-  (* JS *)
-  destruct (proj1 (js_exec_all (c_ij cf) (mode st)) s (j_buf jst) (j_scope jst) (j_n jst) (sc_lookup (ctx st)) je old text env' j sc' n' G E (conj ER Hbuf) Eg)
-    as (je' & E2 & (ER' & Hbuf') & (D2 & F2)).
-  (* Gen *)
-  destruct (proj1 (sgen_print_all o) s fuel jst j sc' n' (j_indent jst) (j_buf jst) (j_auto jst) (j_scope jst) (j_n jst) Hf (gi_nonempty _ _ _ G)
-              (shape_refl jst)) as (jst' & E3 & O3 & I3 & B3 & A3 & S3 & N3). { rewrite Hmode. exact Eg. }
-  destruct (sgen_scope _ _ _ _ _ _ _ _ Eg (gi_nonempty _ _ _ G)) as [Htl _].
-  assert (ER2 : env_rel (j_scope jst') (c_ij cf) (sc_lookup (ctx st')) je').
-  { rewrite S3. eapply env_rel_ext; [|exact ER']. intro k. symmetry. apply A1. }
-  assert (G2 : ginv (j_scope jst') (j_n jst') (j_buf jst')).
-  { rewrite S3, N3, B3. apply (ginv_after _ _ _ _ _ _ _ _ Eg G). }
-  exists st', ws, rv, je', jst'.
-  split; [exact E1|]. split; [exact W1|]. split; [exact C1|]. split; [exact M1|]. split; [exact T1|]. split; [exact A1|].
-  split; [exact E2|]. split; [exact D2|]. split; [exact E3|]. split; [exact O3|]. split; [exact I3|]. split; [exact B3|].
-  split; [rewrite S3; exact Htl|].
-  unfold sim. split; [exact (wrote_wok _ _ _ W1 Hg)|]. split; [exact N1|]. split; [exact ER2|]. split; [exact G2|]. split; [rewrite B3; exact Hbuf'|congruence].
-Qed.
-
-(* the stages by name *)
-Theorem gen_correct_partial_if cf o st je jst c th rest fuel text env' old :
-  c_oblig cf = [] -> (sdepth (SIf c th rest) < fuel)%nat -> sim cf st je jst old ->
-  sout (c_ij cf) (mode st) go_print_text (sc_lookup (ctx st)) (SIf c th rest) = Some (text, env') ->
-  sim_step cf o st je jst (SIf c th rest) fuel text env' old.
-Proof. apply gen_correct_partial_stmt. Qed.
-Theorem gen_correct_partial_let cf o st je jst name e fuel text env' old :
-  c_oblig cf = [] -> (sdepth (SLet name e) < fuel)%nat -> sim cf st je jst old ->
-  sout (c_ij cf) (mode st) go_print_text (sc_lookup (ctx st)) (SLet name e) = Some (text, env') ->
-  sim_step cf o st je jst (SLet name e) fuel text env' old.
-Proof. apply gen_correct_partial_stmt. Qed.
-Theorem gen_correct_partial_let_content cf o st je jst name body fuel text env' old :
-  c_oblig cf = [] -> (sdepth (SLetC name body) < fuel)%nat -> sim cf st je jst old ->
-  sout (c_ij cf) (mode st) go_print_text (sc_lookup (ctx st)) (SLetC name body) = Some (text, env') ->
-  sim_step cf o st je jst (SLetC name body) fuel text env' old.
-Proof. apply gen_correct_partial_stmt. Qed.
-Theorem gen_correct_partial_switch cf o st je jst v cs fuel text env' old :
-  c_oblig cf = [] -> (sdepth (SSwitch v cs) < fuel)%nat -> sim cf st je jst old ->
-  sout (c_ij cf) (mode st) go_print_text (sc_lookup (ctx st)) (SSwitch v cs) = Some (text, env') ->
-  sim_step cf o st je jst (SSwitch v cs) fuel text env' old.
-Proof. apply gen_correct_partial_stmt. Qed.
-
-(* the general statement with sim and sim_step unfolded, for a renderer that writes to its output (no capture
-   buffer, no budget), as stated in Properties/C04.v *)
-Theorem gen_correct_partial_stmt_unfolded : forall cf o st je jst s fuel text env' old,
-  c_oblig cf = [] -> (sdepth s < fuel)%nat ->
-  (* sim cf st je jst old *)
-  bufs st = [] -> calls_left st = None -> bytes_left st = None -> ctx st <> [] ->
-  env_rel (j_scope jst) (c_ij cf) (sc_lookup (ctx st)) je ->
-  ginv (j_scope jst) (j_n jst) (j_buf jst) ->
-  assoc_s (j_buf jst) (je_vars je) = Some (JStr old) ->
-  j_auto jst = mode st ->
-  sout (c_ij cf) (mode st) go_print_text (sc_lookup (ctx st)) s = Some (text, env') ->
-  exists st' ws rv je' jst',
-    let j := fst (sgen (mode st) (j_buf jst) (j_scope jst) (j_n jst) s) in
-    walk cf fuel (snode s) st = (Ok rv, st') /\ out st' = rev ws ++ out st /\ concat_b ws = text
-    /\ mode st' = mode st /\ tl (ctx st') = tl (ctx st) /\ (forall k, sc_lookup (ctx st') k = env' k)
-    /\ js_exec je j = Ok je' /\ je_data je' = je_data je
-    /\ jwalk o fuel (snode s) jst = Ok (tt, jst') /\ j_out jst' = rev (sprint (j_indent jst) j) ++ j_out jst
-    /\ j_indent jst' = j_indent jst /\ j_buf jst' = j_buf jst /\ tl (j_scope jst') = tl (j_scope jst)
-    (* sim cf st' je' jst' (old ++ text) *)
-    /\ bufs st' = [] /\ calls_left st' = None /\ bytes_left st' = None /\ ctx st' <> []
-    /\ env_rel (j_scope jst') (c_ij cf) (sc_lookup (ctx st')) je'
-    /\ ginv (j_scope jst') (j_n jst') (j_buf jst')
-    /\ assoc_s (j_buf jst') (je_vars je') = Some (JStr (old ++ text))
-    /\ j_auto jst' = mode st'.
-Proof.
-  intros cf o st je jst s fuel text env' old Hob Hf H1 H2 H3 H4 H5 H6 H7 H8 E.
-  assert (W : wok st) by (unfold wok; rewrite H1; auto).
-  destruct (gen_correct_partial_stmt cf o st je jst s fuel text env' old Hob Hf (conj W (conj H4 (conj H5 (conj H6 (conj H7 H8))))) E)
-    as (st' & ws & rv & je' & jst' & A1 & A2 & A3 & A4 & A5 & A6 & A7 & A8 & A9 & A10 & A11 & A12 & A13 & (B1 & B4 & B5 & B6 & B7 & B8)).
-  destruct (wrote_out _ _ _ H1 A2) as [Hb Ho]. destruct A2 as (Hcl & Hby & _).
-  exists st', ws, rv, je', jst'. cbn zeta in *.
-  split; [exact A1|]. split; [exact Ho|]. split; [exact A3|]. split; [exact A4|]. split; [exact A5|]. split; [exact A6|].
-  split; [exact A7|]. split; [exact A8|]. split; [exact A9|]. split; [exact A10|]. split; [exact A11|]. split; [exact A12|]. split; [exact A13|].
-  split; [exact Hb|]. split; [congruence|]. split; [congruence|]. split; [exact B4|]. split; [exact B5|]. split; [exact B6|]. split; [exact B7|exact B8].
-Qed.
-
-(* names without an underscore are never generated names *)
-Lemma bounded_no_us n g : ~ In 95 g -> bounded n g.
-Proof. intros H v m E. exfalso. apply H. rewrite E. unfold jsc_name. apply in_or_app. right. left. reflexivity. Qed.
-Lemma bounded_name n v m : m <= n -> bounded n (jsc_name v m).
-Proof. intros H v' m' E. apply jsc_name_inj in E. lia. Qed.
-
-(* the JavaScript side for one statement, with jinv and frame unfolded *)
-Theorem js_exec_stmt : forall ij mode buf s sc n env je old text env' j sc' n',
-  ginv sc n buf -> sout ij mode go_print_text env s = Some (text, env') ->
-  env_rel sc ij env je -> assoc_s buf (je_vars je) = Some (JStr old) ->
-  sgen mode buf sc n s = (j, (sc', n')) ->
-  exists je', js_exec je j = Ok je'
-    /\ (env_rel sc' ij env' je' /\ assoc_s buf (je_vars je') = Some (JStr (old ++ text)))
-    /\ (je_data je' = je_data je
-        /\ forall g, bounded n g -> bstr_eqb g buf = false -> assoc_s g (je_vars je') = assoc_s g (je_vars je)).
-Proof.
-  intros ij mode buf s sc n env je old text env' j sc' n' G E ER Hb Eg.
-  exact (proj1 (js_exec_all ij mode) s buf sc n env je old text env' j sc' n' G E (conj ER Hb) Eg).
-Qed.
